@@ -1,4 +1,5 @@
 import GoBk.Model.XKeyStore
+import GoBk.Model.XKeyHeap
 import GoBk.Spec.Bip32
 import GoBk.Proofs.BytesLemmas
 import GoBk.Proofs.KeyLemmas
@@ -6,7 +7,9 @@ import GoBk.Proofs.Base58Lemmas
 /-
   Lemmas for C04, C08 (extended-key strings) and C18 (value-level facts about `SetNet`/`Zero`):
   `Child` in stages, well-formedness `WF` and its closure, `String`/`NewKeyFromString` round trip,
-  correspondence with the BIP-0032 functions of `GoBk.Spec.Bip32`, `Neuter`/`Child` commutation.
+  correspondence with the BIP-0032 functions of `GoBk.Spec.Bip32`, `Neuter`/`Child` commutation;
+  and (namespace `GoBk.XKeyHeap`) the heap-level model of C18: slices, `Inv`, its preservation and
+  the refinement of `GoBk.Model.XKeyHeap` to the object store `GoBk.Model.XKeyStore`.
 -/
 namespace GoBk.Bip32
 open GoBk Bytes Spec
@@ -1346,8 +1349,1690 @@ theorem foldlM_child_priv_spec (pr : Prims) (ok : PrimsOK pr) (is : List Nat) (k
 
 end GoBk.Bip32
 
+namespace GoBk.XKeyHeap
+open GoBk Bytes Bip32 XKeyStore
+
+/-! ### heap model (C18): reading slices -/
+
+/-- the content of array `a` (empty if unallocated) -/
+def Heap.arrAt (h : Heap) (a : Nat) : Bytes := h.mem.getD a []
+
+theorem read_def (h : Heap) (s : Slice) : h.read s = ((h.arrAt s.arr).drop s.off).take s.len := rfl
+
+/-- a slice lies inside its (allocated) array -/
+def Heap.inBounds (h : Heap) (s : Slice) : Prop :=
+  s.len = 0 ∨ (s.arr < h.mem.size ∧ s.off + s.len ≤ (h.arrAt s.arr).length)
+
+theorem read_nil_len (h : Heap) (s : Slice) (hs : s.len = 0) : h.read s = [] := by
+  rw [read_def, hs, List.take_zero]
+
+theorem read_length (h : Heap) (s : Slice) (hb : h.inBounds s) : (h.read s).length = s.len := by
+  rcases hb with h0 | ⟨_, hl⟩
+  · rw [read_nil_len h s h0, h0]; rfl
+  · rw [read_def, List.length_take, List.length_drop]; omega
+
+/-- reading depends only on the content of the slice's array -/
+theorem read_congr (h h' : Heap) (s : Slice) (he : s.len = 0 ∨ h'.arrAt s.arr = h.arrAt s.arr) :
+    h'.read s = h.read s := by
+  rcases he with h0 | he
+  · rw [read_nil_len _ _ h0, read_nil_len _ _ h0]
+  · rw [read_def, read_def, he]
+
+theorem absKey_congr (h h' : Heap) (k : HKey)
+    (he : ∀ s ∈ [k.key, k.chainCode, k.parentFP, k.version], h'.read s = h.read s) :
+    h'.absKey k = h.absKey k := by
+  unfold Heap.absKey
+  rw [he k.key (by simp), he k.chainCode (by simp), he k.parentFP (by simp), he k.version (by simp)]
+
+/-- `h'` extends `h`: the arrays of `h` are unchanged, more may have been allocated -/
+def Ext (h h' : Heap) : Prop := ∀ a, a < h.mem.size → h'.mem[a]? = h.mem[a]?
+
+theorem Ext.refl (h : Heap) : Ext h h := fun _ _ => rfl
+theorem Ext.trans {h1 h2 h3 : Heap} (a : Ext h1 h2) (b : Ext h2 h3) (hs : h1.mem.size ≤ h2.mem.size) :
+    Ext h1 h3 := fun x hx => (b x (by omega)).trans (a x hx)
+
+theorem Ext.size {h h' : Heap} (e : Ext h h') : h.mem.size ≤ h'.mem.size := by
+  apply Decidable.byContradiction; intro hc
+  have hlt : h'.mem.size < h.mem.size := by omega
+  have := e h'.mem.size hlt
+  rw [Array.getElem?_eq_none (Nat.le_refl _)] at this
+  have h2 : h.mem[h'.mem.size]? = some h.mem[h'.mem.size] := Array.getElem?_eq_getElem hlt
+  rw [h2] at this; cases this
+
+theorem Ext.arrAt {h h' : Heap} (e : Ext h h') (a : Nat) (ha : a < h.mem.size) : h'.arrAt a = h.arrAt a := by
+  unfold Heap.arrAt
+  rw [Array.getD_eq_getD_getElem?, Array.getD_eq_getD_getElem?, e a ha]
+
+theorem Ext.read {h h' : Heap} (e : Ext h h') (s : Slice) (hb : h.inBounds s) : h'.read s = h.read s := by
+  apply read_congr
+  rcases hb with h0 | ⟨ha, _⟩
+  · exact Or.inl h0
+  · exact Or.inr (e.arrAt _ ha)
+
+theorem Ext.inBounds {h h' : Heap} (e : Ext h h') (s : Slice) (hb : h.inBounds s) : h'.inBounds s := by
+  rcases hb with h0 | ⟨ha, hl⟩
+  · exact Or.inl h0
+  · exact Or.inr ⟨Nat.lt_of_lt_of_le ha e.size, by rw [e.arrAt _ ha]; exact hl⟩
+
+theorem ext_push (h : Heap) (b : Bytes) (objs : Array HKey) (regs : Array (Option Nat)) :
+    Ext h { mem := h.mem.push b, objs := objs, regs := regs } := by
+  intro a ha
+  show (h.mem.push b)[a]? = _
+  rw [Array.getElem?_push, if_neg (by omega)]
+
+theorem ext_same_mem (h : Heap) (objs : Array HKey) (regs : Array (Option Nat)) :
+    Ext h { mem := h.mem, objs := objs, regs := regs } := fun _ _ => rfl
+
+theorem arrAt_push_new (m : Array Bytes) (b : Bytes) (objs : Array HKey) (regs : Array (Option Nat)) :
+    (Heap.mk (m.push b) objs regs).arrAt m.size = b := by
+  unfold Heap.arrAt
+  show (m.push b).getD m.size [] = b
+  rw [Array.getD_eq_getD_getElem?, Array.getElem?_push_size]; rfl
+
+/-! ### writing zeros -/
+
+/-- the array update performed by `zero(b)` on the range `[o, o+n)` -/
+def patch (o n : Nat) (b : Bytes) : Bytes := b.take o ++ List.replicate n 0 ++ b.drop (o + n)
+
+theorem patch_length (o n : Nat) (b : Bytes) (h : o + n ≤ b.length) : (patch o n b).length = b.length := by
+  unfold patch; simp [List.length_take, List.length_drop]; omega
+
+theorem patch_getElem? (o n : Nat) (b : Bytes) (h : o + n ≤ b.length) (j : Nat) :
+    (patch o n b)[j]? = if o ≤ j ∧ j < o + n then some 0 else b[j]? := by
+  unfold patch
+  have hl : (b.take o).length = o := by rw [List.length_take]; omega
+  rw [List.append_assoc, List.getElem?_append, hl]
+  by_cases h1 : j < o
+  · rw [if_pos h1, if_neg (by omega), List.getElem?_take, if_pos h1]
+  · rw [if_neg h1, List.getElem?_append, List.length_replicate]
+    by_cases h2 : j - o < n
+    · rw [if_pos h2, if_pos (by omega), List.getElem?_replicate, if_pos h2]
+    · rw [if_neg h2, if_neg (by omega), List.getElem?_drop]
+      congr 1; omega
+
+theorem arrAt_writeZeros (h : Heap) (s : Slice) (a : Nat) :
+    (h.writeZeros s).arrAt a = if a = s.arr ∧ a < h.mem.size then patch s.off s.len (h.arrAt a) else h.arrAt a := by
+  unfold Heap.arrAt Heap.writeZeros
+  simp only [Array.getD_eq_getD_getElem?, Array.getElem?_modify]
+  by_cases ha : s.arr = a
+  · subst ha
+    rw [if_pos rfl]
+    by_cases hlt : s.arr < h.mem.size
+    · rw [if_pos ⟨rfl, hlt⟩, Array.getElem?_eq_getElem hlt]; rfl
+    · rw [if_neg (by omega), Array.getElem?_eq_none (by omega)]; rfl
+  · rw [if_neg ha, if_neg (by intro e; exact ha e.1.symm)]
+
+theorem writeZeros_size (h : Heap) (s : Slice) : (h.writeZeros s).mem.size = h.mem.size := by
+  unfold Heap.writeZeros; simp [Array.size_modify]
+
+theorem writeZeros_objs (h : Heap) (s : Slice) : (h.writeZeros s).objs = h.objs := rfl
+theorem writeZeros_regs (h : Heap) (s : Slice) : (h.writeZeros s).regs = h.regs := rfl
+
+/-- two slices that do not overlap -/
+def Slice.disjoint (s t : Slice) : Prop :=
+  s.len = 0 ∨ t.len = 0 ∨ s.arr ≠ t.arr ∨ s.off + s.len ≤ t.off ∨ t.off + t.len ≤ s.off
+
+theorem take_drop_ext (b b' : Bytes) (o n : Nat) (h : ∀ i, i < n → b'[o + i]? = b[o + i]?) :
+    (b'.drop o).take n = (b.drop o).take n := by
+  apply List.ext_getElem?
+  intro i
+  rw [List.getElem?_take, List.getElem?_take]
+  by_cases hi : i < n
+  · rw [if_pos hi, if_pos hi, List.getElem?_drop, List.getElem?_drop, h i hi]
+  · rw [if_neg hi, if_neg hi]
+
+/-- writing zeros through `s` does not change what a disjoint slice denotes -/
+theorem read_writeZeros_disjoint (h : Heap) (s t : Slice) (hs : h.inBounds s) (hd : t.disjoint s) :
+    (h.writeZeros s).read t = h.read t := by
+  by_cases ht0 : t.len = 0
+  · rw [read_nil_len _ _ ht0, read_nil_len _ _ ht0]
+  rw [read_def, read_def, arrAt_writeZeros]
+  by_cases hc : t.arr = s.arr ∧ t.arr < h.mem.size
+  · rw [if_pos hc]
+    rcases hs with hs0 | ⟨_, hsl⟩
+    · have : patch s.off s.len (h.arrAt t.arr) = h.arrAt t.arr := by
+        unfold patch; rw [hs0]; simp
+      rw [this]
+    · have e := hc.1
+      rw [e]
+      apply take_drop_ext
+      intro i hi
+      rw [patch_getElem? _ _ _ hsl, if_neg]
+      rcases hd with h1 | h1 | h1 | h1 | h1
+      · exact absurd h1 ht0
+      · omega
+      · exact absurd e h1
+      · omega
+      · omega
+  · rw [if_neg hc]
+
+theorem all_zero_iff (l : Bytes) (n : Nat) : l = List.replicate n 0 ↔ l.length = n ∧ ∀ i, i < n → l[i]? = some 0 := by
+  constructor
+  · rintro rfl; exact ⟨List.length_replicate .., fun i hi => by rw [List.getElem?_replicate, if_pos hi]⟩
+  · rintro ⟨hl, hz⟩
+    apply List.ext_getElem?
+    intro i
+    rw [List.getElem?_replicate]
+    by_cases hi : i < n
+    · rw [if_pos hi, hz i hi]
+    · rw [if_neg hi, List.getElem?_eq_none (by omega)]
+
+/-- a slice reads as zeros -/
+def Heap.zeroAt (h : Heap) (t : Slice) : Prop := h.read t = List.replicate t.len 0
+
+theorem inBounds_writeZeros (h : Heap) (s t : Slice) (hs : h.inBounds s) (ht : h.inBounds t) :
+    (h.writeZeros s).inBounds t := by
+  rcases ht with h0 | ⟨ha, hl⟩
+  · exact Or.inl h0
+  · refine Or.inr ⟨by rw [writeZeros_size]; exact ha, ?_⟩
+    rw [arrAt_writeZeros]
+    by_cases hc : t.arr = s.arr ∧ t.arr < h.mem.size
+    · rw [if_pos hc]
+      rcases hs with hs0 | ⟨_, hsl⟩
+      · have : patch s.off s.len (h.arrAt t.arr) = h.arrAt t.arr := by
+          unfold patch; rw [hs0]; simp
+        rw [this]; exact hl
+      · rw [patch_length _ _ _ (by rw [hc.1]; exact hsl)]; exact hl
+    · rw [if_neg hc]; exact hl
+
+/-- after `zero(s)` the slice `s` reads as zeros -/
+theorem zeroAt_writeZeros_self (h : Heap) (s : Slice) (hs : h.inBounds s) : (h.writeZeros s).zeroAt s := by
+  unfold Heap.zeroAt
+  rcases hs with hs0 | ⟨ha, hsl⟩
+  · rw [read_nil_len _ _ hs0, hs0]; rfl
+  · rw [all_zero_iff]
+    refine ⟨read_length _ _ (inBounds_writeZeros h s s (Or.inr ⟨ha, hsl⟩) (Or.inr ⟨ha, hsl⟩)), ?_⟩
+    intro i hi
+    rw [read_def, arrAt_writeZeros, if_pos ⟨rfl, ha⟩, List.getElem?_take, if_pos hi, List.getElem?_drop,
+      patch_getElem? _ _ _ hsl, if_pos (by omega)]
+
+/-- … and further `zero(·)` calls keep it so -/
+theorem zeroAt_writeZeros (h : Heap) (s t : Slice) (hs : h.inBounds s) (ht : h.inBounds t)
+    (hz : h.zeroAt t) : (h.writeZeros s).zeroAt t := by
+  unfold Heap.zeroAt at *
+  rw [all_zero_iff] at hz ⊢
+  refine ⟨read_length _ _ (inBounds_writeZeros h s t hs ht), ?_⟩
+  intro i hi
+  have h0 := hz.2 i hi
+  rw [read_def, List.getElem?_take, if_pos hi, List.getElem?_drop] at h0 ⊢
+  rw [arrAt_writeZeros]
+  by_cases hc : t.arr = s.arr ∧ t.arr < h.mem.size
+  · rw [if_pos hc]
+    rcases hs with hs0 | ⟨_, hsl⟩
+    · have : patch s.off s.len (h.arrAt t.arr) = h.arrAt t.arr := by
+        unfold patch; rw [hs0]; simp
+      rw [this]; exact h0
+    · rw [patch_getElem? _ _ _ (by rw [hc.1]; exact hsl)]
+      split
+      · rfl
+      · exact h0
+  · rw [if_neg hc]; exact h0
+
+/-! ### the network arrays -/
+
+theorem netMem_size (nets : List Net) : (netMem nets).size = 2 * nets.length := by
+  unfold netMem
+  induction nets with
+  | nil => rfl
+  | cons n ns ih =>
+    simp only [List.flatMap_cons, List.size_toArray, List.length_append, List.length_cons, List.length_nil] at ih ⊢
+    omega
+
+theorem netList_getElem? (nets : List Net) (n : Nat) :
+    (nets.flatMap fun n => [n.hdPriv, n.hdPub])[2 * n]? = (nets[n]?).map (·.hdPriv) ∧
+    (nets.flatMap fun n => [n.hdPriv, n.hdPub])[2 * n + 1]? = (nets[n]?).map (·.hdPub) := by
+  induction nets generalizing n with
+  | nil => simp
+  | cons x xs ih =>
+    cases n with
+    | zero => simp
+    | succ n =>
+      have e1 : 2 * (n + 1) = (2 * n) + 2 := by omega
+      have e2 : 2 * (n + 1) + 1 = (2 * n + 1) + 2 := by omega
+      simp only [List.flatMap_cons, List.cons_append, List.nil_append]
+      have e3 : 2 * n + 2 + 1 = (2 * n + 1) + 1 + 1 := by omega
+      rw [e1]
+      rw [e3, show 2 * n + 2 = (2 * n) + 1 + 1 from rfl]
+      simp only [List.getElem?_cons_succ]
+      exact ih n
+
+theorem netMem_getElem? (nets : List Net) (n : Nat) :
+    (netMem nets)[2 * n]? = (nets[n]?).map (·.hdPriv) ∧ (netMem nets)[2 * n + 1]? = (nets[n]?).map (·.hdPub) := by
+  unfold netMem
+  rw [List.getElem?_toArray, List.getElem?_toArray]
+  exact netList_getElem? nets n
+
+/-! ### the invariant -/
+
+/-- **Inv**: the network arrays are intact; every slice is in bounds; the slices `Zero` writes
+through (`key, pubKey, chainCode, parentFP`) lie outside the network arrays, those of DIFFERENT key
+records lie in different arrays, and no `version` slice of any record overlaps a writable slice of
+any record; registers refer to allocated records; a filled `pubKey` cache holds `pubKeyBytes`. -/
+structure Inv (nets : List Net) (h : Heap) : Prop where
+  netMem : ∀ a, a < 2 * nets.length → h.mem[a]? = (netMem nets)[a]?
+  size : 2 * nets.length ≤ h.mem.size
+  bounds : ∀ (id : Nat) k, h.objs[id]? = some k → ∀ s ∈ k.version :: k.writable, h.inBounds s
+  wr : ∀ (id : Nat) k, h.objs[id]? = some k → ∀ s ∈ k.writable, s.len = 0 ∨ 2 * nets.length ≤ s.arr
+  disj : ∀ (id1 id2 : Nat) k1 k2, h.objs[id1]? = some k1 → h.objs[id2]? = some k2 → id1 ≠ id2 →
+    ∀ s1 ∈ k1.writable, ∀ s2 ∈ k2.writable, s1.len = 0 ∨ s2.len = 0 ∨ s1.arr ≠ s2.arr
+  verdisj : ∀ (id1 id2 : Nat) k1 k2, h.objs[id1]? = some k1 → h.objs[id2]? = some k2 →
+    ∀ s ∈ k2.writable, k1.version.disjoint s
+  regs : ∀ (r id : Nat), h.regs[r]? = some (some id) → id < h.objs.size
+  cache : ∀ (id : Nat) k, h.objs[id]? = some k → k.isPrivate = true →
+    k.pubKey.len = 0 ∨ h.read k.pubKey = (h.absKey k).pubKeyBytes
+
+theorem inv_hempty (nets : List Net) : Inv nets (hempty nets) where
+  netMem := fun _ _ => rfl
+  size := Nat.le_of_eq (netMem_size nets).symm
+  bounds := fun id k h => by simp [hempty] at h
+  wr := fun id k h => by simp [hempty] at h
+  disj := fun id1 id2 k1 k2 h => by simp [hempty] at h
+  verdisj := fun id1 id2 k1 k2 h => by simp [hempty] at h
+  regs := fun r id h => by simp [hempty] at h
+  cache := fun id k h => by simp [hempty] at h
+
+/-! ### abstraction: registers -/
+
+theorem abs_get (h : Heap) (r : Nat) :
+    h.abs.get r = (h.get r).map fun p => (p.1, h.absKey p.2) := by
+  unfold State.get Heap.get Heap.abs
+  simp only []
+  cases hr : h.regs[r]? with
+  | none => rfl
+  | some x =>
+    cases x with
+    | none => rfl
+    | some id =>
+      simp only [Array.getElem?_map]
+      cases h.objs[id]? <;> rfl
+
+theorem hget_some {h : Heap} {r id : Nat} {k : HKey} (hg : h.get r = some (id, k)) :
+    h.regs[r]? = some (some id) ∧ h.objs[id]? = some k := by
+  unfold Heap.get at hg
+  split at hg
+  · rename_i id' hr
+    cases ho : h.objs[id']? with
+    | none => rw [ho] at hg; cases hg
+    | some k' =>
+      rw [ho] at hg
+      simp only [Option.map_some, Option.some.injEq, Prod.mk.injEq] at hg
+      obtain ⟨rfl, rfl⟩ := hg
+      exact ⟨hr, ho⟩
+  · cases hg
+
+theorem abs_fail (h : Heap) : h.fail.abs = h.abs.fail := rfl
+theorem abs_alias (h : Heap) (id : Nat) : (h.alias id).abs = h.abs.alias id := rfl
+
+theorem Inv.fail {nets : List Net} {h : Heap} (hI : Inv nets h) : Inv nets h.fail where
+  netMem := hI.netMem
+  size := hI.size
+  bounds := hI.bounds
+  wr := hI.wr
+  disj := hI.disj
+  verdisj := hI.verdisj
+  regs := fun r id hr => by
+    have hr' : (h.regs.push none)[r]? = some (some id) := hr
+    rw [Array.getElem?_push] at hr'
+    split at hr'
+    · cases hr'
+    · exact hI.regs r id hr'
+  cache := hI.cache
+
+theorem Inv.alias {nets : List Net} {h : Heap} (hI : Inv nets h) (id0 : Nat) (h0 : id0 < h.objs.size) :
+    Inv nets (h.alias id0) where
+  netMem := hI.netMem
+  size := hI.size
+  bounds := hI.bounds
+  wr := hI.wr
+  disj := hI.disj
+  verdisj := hI.verdisj
+  regs := fun r id hr => by
+    have hr' : (h.regs.push (some id0))[r]? = some (some id) := hr
+    rw [Array.getElem?_push] at hr'
+    split at hr'
+    · injection hr' with e; injection e with e; subst e; exact h0
+    · exact hI.regs r id hr'
+  cache := hI.cache
+
+
+/-! ### allocation of a new key record -/
+
+theorem absKey_ext {h1 h2 : Heap} (e : Ext h1 h2) (k : HKey)
+    (hb : ∀ s ∈ k.version :: k.writable, h1.inBounds s) : h2.absKey k = h1.absKey k := by
+  apply absKey_congr
+  intro s hs
+  apply e.read
+  apply hb
+  simp only [HKey.writable, List.mem_cons, List.not_mem_nil, or_false] at hs ⊢
+  rcases hs with rfl | rfl | rfl | rfl <;> simp
+
+theorem map_absKey_ext {nets : List Net} {h1 h2 : Heap} (hI : Inv nets h1) (e : Ext h1 h2) :
+    h1.objs.map h2.absKey = h1.objs.map h1.absKey := by
+  apply Array.ext_getElem?
+  intro i
+  rw [Array.getElem?_map, Array.getElem?_map]
+  cases hk : h1.objs[i]? with
+  | none => rfl
+  | some k => simp only [Option.map_some]; rw [absKey_ext e k (hI.bounds i k hk)]
+
+theorem push_getElem?_some {α} (xs : Array α) (x k : α) (i : Nat) (h : (xs.push x)[i]? = some k) :
+    (i = xs.size ∧ k = x) ∨ (i < xs.size ∧ xs[i]? = some k) := by
+  rw [Array.getElem?_push] at h
+  split at h
+  · rename_i hi; injection h with h; exact Or.inl ⟨hi, h.symm⟩
+  · right
+    refine ⟨?_, h⟩
+    rcases Array.getElem?_eq_some_iff.1 h with ⟨hlt, _⟩; exact hlt
+
+theorem inBounds_arr_lt {h : Heap} {s : Slice} (hb : h.inBounds s) (hl : s.len ≠ 0) : s.arr < h.mem.size := by
+  rcases hb with h0 | ⟨ha, _⟩
+  · exact absurd h0 hl
+  · exact ha
+
+/-- **allocation**: pushing a record whose writable slices live in arrays allocated after every
+existing record was built, and whose version slice overlaps no writable slice, preserves `Inv` -/
+theorem Inv.pushKey {nets : List Net} {h1 h2 : Heap} (hI : Inv nets h1) (e : Ext h1 h2)
+    (ho : h2.objs = h1.objs) (hr : h2.regs = h1.regs) (nk : HKey)
+    (hw : ∀ s ∈ nk.writable, s.len = 0 ∨ (h1.mem.size ≤ s.arr ∧ h2.inBounds s))
+    (hv : h2.inBounds nk.version)
+    (hvs : ∀ s ∈ nk.writable, nk.version.disjoint s)
+    (hvo : ∀ (id2 : Nat) k2, h1.objs[id2]? = some k2 → ∀ s ∈ k2.writable, nk.version.disjoint s)
+    (hc : nk.pubKey.len = 0) : Inv nets (h2.pushKey nk) := by
+  have hobjs : (h2.pushKey nk).objs = h1.objs.push nk := by show h2.objs.push nk = _; rw [ho]
+  have hmem : (h2.pushKey nk).mem = h2.mem := rfl
+  have hib : ∀ s, h2.inBounds s → (h2.pushKey nk).inBounds s := fun s hs => hs
+  have old_ver_new_wr : ∀ (id1 : Nat) k1, h1.objs[id1]? = some k1 → ∀ s ∈ nk.writable, k1.version.disjoint s := by
+    intro id1 k1 hk1 s hs
+    by_cases hv0 : k1.version.len = 0
+    · exact Or.inl hv0
+    · have := inBounds_arr_lt (hI.bounds id1 k1 hk1 k1.version (by simp)) hv0
+      rcases hw s hs with h0 | ⟨hge, _⟩
+      · exact Or.inr (Or.inl h0)
+      · exact Or.inr (Or.inr (Or.inl (by omega)))
+  have new_old_arr : ∀ (id2 : Nat) k2, h1.objs[id2]? = some k2 → ∀ s1 ∈ nk.writable, ∀ s2 ∈ k2.writable,
+      s1.len = 0 ∨ s2.len = 0 ∨ s1.arr ≠ s2.arr := by
+    intro id2 k2 hk2 s1 hs1 s2 hs2
+    by_cases h20 : s2.len = 0
+    · exact Or.inr (Or.inl h20)
+    · have := inBounds_arr_lt (hI.bounds id2 k2 hk2 s2 (List.mem_cons_of_mem _ hs2)) h20
+      rcases hw s1 hs1 with h0 | ⟨hge, _⟩
+      · exact Or.inl h0
+      · exact Or.inr (Or.inr (by omega))
+  refine ⟨?_, ?_, ?_, ?_, ?_, ?_, ?_, ?_⟩
+  · intro a ha
+    show h2.mem[a]? = _
+    rw [e a (Nat.lt_of_lt_of_le ha hI.size)]; exact hI.netMem a ha
+  · exact Nat.le_trans hI.size e.size
+  · intro id k hk s hs
+    rw [hobjs] at hk
+    rcases push_getElem?_some _ _ _ _ hk with ⟨_, rfl⟩ | ⟨_, hk'⟩
+    · rcases List.mem_cons.1 hs with rfl | hs'
+      · exact hv
+      · rcases hw s hs' with h0 | ⟨_, hb⟩
+        · exact Or.inl h0
+        · exact hb
+    · exact e.inBounds s (hI.bounds id k hk' s hs)
+  · intro id k hk s hs
+    rw [hobjs] at hk
+    rcases push_getElem?_some _ _ _ _ hk with ⟨_, rfl⟩ | ⟨_, hk'⟩
+    · rcases hw s hs with h0 | ⟨hge, _⟩
+      · exact Or.inl h0
+      · exact Or.inr (Nat.le_trans hI.size hge)
+    · exact hI.wr id k hk' s hs
+  · intro id1 id2 k1 k2 hk1 hk2 hne s1 hs1 s2 hs2
+    rw [hobjs] at hk1 hk2
+    rcases push_getElem?_some _ _ _ _ hk1 with ⟨i1, rfl⟩ | ⟨i1, hk1'⟩ <;>
+      rcases push_getElem?_some _ _ _ _ hk2 with ⟨i2, rfl⟩ | ⟨i2, hk2'⟩
+    · exact absurd (i1.trans i2.symm) hne
+    · exact new_old_arr id2 k2 hk2' s1 hs1 s2 hs2
+    · rcases new_old_arr id1 k1 hk1' s2 hs2 s1 hs1 with h | h | h
+      · exact Or.inr (Or.inl h)
+      · exact Or.inl h
+      · exact Or.inr (Or.inr (Ne.symm h))
+    · exact hI.disj id1 id2 k1 k2 hk1' hk2' hne s1 hs1 s2 hs2
+  · intro id1 id2 k1 k2 hk1 hk2 s hs
+    rw [hobjs] at hk1 hk2
+    rcases push_getElem?_some _ _ _ _ hk1 with ⟨i1, rfl⟩ | ⟨i1, hk1'⟩ <;>
+      rcases push_getElem?_some _ _ _ _ hk2 with ⟨i2, rfl⟩ | ⟨i2, hk2'⟩
+    · exact hvs s hs
+    · exact hvo id2 k2 hk2' s hs
+    · exact old_ver_new_wr id1 k1 hk1' s hs
+    · exact hI.verdisj id1 id2 k1 k2 hk1' hk2' s hs
+  · intro r id hreg
+    have hreg' : (h2.regs.push (some h2.objs.size))[r]? = some (some id) := hreg
+    have hsz : (h2.pushKey nk).objs.size = h1.objs.size + 1 := by rw [hobjs, Array.size_push]
+    rw [hsz]
+    rw [Array.getElem?_push] at hreg'
+    split at hreg'
+    · injection hreg' with e1; injection e1 with e1; rw [← e1, ho]; omega
+    · rw [hr] at hreg'; have := hI.regs r id hreg'; omega
+  · intro id k hk hp
+    rw [hobjs] at hk
+    rcases push_getElem?_some _ _ _ _ hk with ⟨_, rfl⟩ | ⟨_, hk'⟩
+    · exact Or.inl hc
+    · rcases hI.cache id k hk' hp with h0 | h1c
+      · exact Or.inl h0
+      · right
+        have hb := hI.bounds id k hk'
+        show h2.read k.pubKey = (h2.absKey k).pubKeyBytes
+        rw [absKey_ext e k hb, e.read _ (hb _ (by simp [HKey.writable]))]
+        exact h1c
+
+theorem abs_pushKey {nets : List Net} {h1 h2 : Heap} (hI : Inv nets h1) (e : Ext h1 h2)
+    (ho : h2.objs = h1.objs) (hr : h2.regs = h1.regs) (nk : HKey) :
+    (h2.pushKey nk).abs = h1.abs.newObj (.ok (h2.absKey nk)) := by
+  unfold Heap.abs State.newObj Heap.pushKey
+  simp only []
+  have : (h2.objs.push nk).map (Heap.absKey { mem := h2.mem, objs := h2.objs.push nk, regs := h2.regs.push (some h2.objs.size) })
+      = (h1.objs.map h1.absKey).push (h2.absKey nk) := by
+    rw [Array.map_push, ho]
+    congr 1
+    exact map_absKey_ext hI e
+  rw [this, hr, ho]
+  simp only [Array.size_map]
+
+
+/-! ### replacing one record (cache fill, SetNet) -/
+
+theorem set_getElem?_some {α} (xs : Array α) (x k : α) (id i : Nat) (h : (xs.set! id x)[i]? = some k) :
+    (i = id ∧ k = x ∧ id < xs.size) ∨ (i ≠ id ∧ xs[i]? = some k) := by
+  rw [Array.set!_eq_setIfInBounds, Array.getElem?_setIfInBounds] at h
+  split at h
+  · rename_i hi
+    split at h
+    · rename_i hlt; injection h with h; exact Or.inl ⟨hi.symm, h.symm, hlt⟩
+    · cases h
+  · rename_i hi; exact Or.inr ⟨fun e => hi e.symm, h⟩
+
+theorem pubKeyBytes_congr (a b : XKey) (h1 : a.key = b.key) (h2 : a.isPrivate = b.isPrivate) :
+    a.pubKeyBytes = b.pubKeyBytes := by
+  unfold XKey.pubKeyBytes; rw [h1, h2]
+
+/-- replacing record `id` by one with the same `key, chainCode, parentFP`, whose `pubKey` is either
+unchanged or a freshly allocated cache holding `pubKeyBytes`, and whose `version` is either
+unchanged, nil, or a slice of a network array -/
+theorem Inv.replace {nets : List Net} {h h' : Heap} (hI : Inv nets h) (e : Ext h h') (id : Nat) (k k' : HKey)
+    (hk : h.objs[id]? = some k) (hobjs : h'.objs = h.objs.set! id k') (hregs : h'.regs = h.regs)
+    (hkey : k'.key = k.key) (hcc : k'.chainCode = k.chainCode) (hfp : k'.parentFP = k.parentFP)
+    (hpriv : k'.isPrivate = k.isPrivate)
+    (hpub : k'.pubKey = k.pubKey ∨ (h.mem.size ≤ k'.pubKey.arr ∧ h'.inBounds k'.pubKey ∧
+        (k.isPrivate = true → h'.read k'.pubKey = (h.absKey k).pubKeyBytes)))
+    (hver : k'.version = k.version ∨ k'.version.len = 0 ∨
+        (k'.version.arr < 2 * nets.length ∧ h.inBounds k'.version)) : Inv nets h' := by
+  have hidlt : id < h.objs.size := by rcases Array.getElem?_eq_some_iff.1 hk with ⟨hlt, _⟩; exact hlt
+  -- writable slices of the new record: old ones, or the fresh cache
+  have hwr' : ∀ s ∈ k'.writable, s ∈ k.writable ∨ (s = k'.pubKey ∧ h.mem.size ≤ s.arr ∧ h'.inBounds s) := by
+    intro s hs
+    simp only [HKey.writable, List.mem_cons, List.not_mem_nil, or_false] at hs ⊢
+    rcases hs with rfl | rfl | rfl | rfl
+    · left; left; exact hkey
+    · rcases hpub with hp | ⟨h1, h2, _⟩
+      · left; right; left; exact hp
+      · right; exact ⟨rfl, h1, h2⟩
+    · left; right; right; left; exact hcc
+    · left; right; right; right; exact hfp
+  have hverib : h'.inBounds k'.version := by
+    rcases hver with hv | hv | ⟨_, hv⟩
+    · rw [hv]; exact e.inBounds _ (hI.bounds id k hk _ (by simp))
+    · exact Or.inl hv
+    · exact e.inBounds _ hv
+  -- the new version slice is disjoint from every old writable slice
+  have hverd : ∀ (id2 : Nat) k2, h.objs[id2]? = some k2 → ∀ s ∈ k2.writable, k'.version.disjoint s := by
+    intro id2 k2 hk2 s hs
+    rcases hver with hv | hv | ⟨hv, _⟩
+    · rw [hv]; exact hI.verdisj id id2 k k2 hk hk2 s hs
+    · exact Or.inl hv
+    · rcases hI.wr id2 k2 hk2 s hs with h0 | hge
+      · exact Or.inr (Or.inl h0)
+      · exact Or.inr (Or.inr (Or.inl (by omega)))
+  -- any in-bounds slice of the old heap is disjoint from the fresh cache (different array)
+  have fresh_disj : ∀ t s : Slice, h.inBounds t → h.mem.size ≤ s.arr → t.disjoint s := by
+    intro t s ht hs
+    by_cases t0 : t.len = 0
+    · exact Or.inl t0
+    · have := inBounds_arr_lt ht t0
+      exact Or.inr (Or.inr (Or.inl (by omega)))
+  have hveribOld : k'.version.len = 0 ∨ k'.version.arr < h.mem.size := by
+    rcases hver with hv | hv | ⟨hv, _⟩
+    · rw [hv]
+      by_cases v0 : k.version.len = 0
+      · exact Or.inl v0
+      · exact Or.inr (inBounds_arr_lt (hI.bounds id k hk _ (by simp)) v0)
+    · exact Or.inl hv
+    · exact Or.inr (Nat.lt_of_lt_of_le hv hI.size)
+  have lookup : ∀ (i : Nat) x, h'.objs[i]? = some x →
+      (i = id ∧ x = k') ∨ (i ≠ id ∧ h.objs[i]? = some x) := by
+    intro i x hx
+    rw [hobjs] at hx
+    rcases set_getElem?_some _ _ _ _ _ hx with ⟨a, b, _⟩ | ⟨a, b⟩
+    · exact Or.inl ⟨a, b⟩
+    · exact Or.inr ⟨a, b⟩
+  refine ⟨?_, ?_, ?_, ?_, ?_, ?_, ?_, ?_⟩
+  · intro a ha
+    rw [e a (Nat.lt_of_lt_of_le ha hI.size)]; exact hI.netMem a ha
+  · exact Nat.le_trans hI.size e.size
+  · intro i x hx s hs
+    rcases lookup i x hx with ⟨_, rfl⟩ | ⟨_, hx'⟩
+    · rcases List.mem_cons.1 hs with rfl | hs'
+      · exact hverib
+      · rcases hwr' s hs' with hold | ⟨_, _, hb⟩
+        · exact e.inBounds _ (hI.bounds id k hk s (List.mem_cons_of_mem _ hold))
+        · exact hb
+    · exact e.inBounds _ (hI.bounds i x hx' s hs)
+  · intro i x hx s hs
+    rcases lookup i x hx with ⟨_, rfl⟩ | ⟨_, hx'⟩
+    · rcases hwr' s hs with hold | ⟨_, hge, _⟩
+      · exact hI.wr id k hk s hold
+      · exact Or.inr (Nat.le_trans hI.size hge)
+    · exact hI.wr i x hx' s hs
+  · intro i1 i2 x1 x2 hx1 hx2 hne s1 hs1 s2 hs2
+    rcases lookup i1 x1 hx1 with ⟨a1, rfl⟩ | ⟨a1, hx1'⟩ <;>
+      rcases lookup i2 x2 hx2 with ⟨a2, rfl⟩ | ⟨a2, hx2'⟩
+    · exact absurd (a1.trans a2.symm) hne
+    · rcases hwr' s1 hs1 with hold | ⟨_, hge, _⟩
+      · exact hI.disj id i2 k x2 hk hx2' (fun e => a2 e.symm) s1 hold s2 hs2
+      · by_cases h20 : s2.len = 0
+        · exact Or.inr (Or.inl h20)
+        · have := inBounds_arr_lt (hI.bounds i2 x2 hx2' s2 (List.mem_cons_of_mem _ hs2)) h20
+          exact Or.inr (Or.inr (by omega))
+    · rcases hwr' s2 hs2 with hold | ⟨_, hge, _⟩
+      · exact hI.disj i1 id x1 k hx1' hk a1 s1 hs1 s2 hold
+      · by_cases h10 : s1.len = 0
+        · exact Or.inl h10
+        · have := inBounds_arr_lt (hI.bounds i1 x1 hx1' s1 (List.mem_cons_of_mem _ hs1)) h10
+          exact Or.inr (Or.inr (by omega))
+    · exact hI.disj i1 i2 x1 x2 hx1' hx2' hne s1 hs1 s2 hs2
+  · intro i1 i2 x1 x2 hx1 hx2 s hs
+    -- version of record i1 against writable slice s of record i2
+    have verOld : ∀ (j : Nat) y, h.objs[j]? = some y → ∀ t, h.mem.size ≤ t.arr → y.version.disjoint t :=
+      fun j y hy t ht => fresh_disj _ _ (hI.bounds j y hy _ (by simp)) ht
+    rcases lookup i1 x1 hx1 with ⟨a1, rfl⟩ | ⟨a1, hx1'⟩ <;>
+      rcases lookup i2 x2 hx2 with ⟨a2, rfl⟩ | ⟨a2, hx2'⟩
+    · rcases hwr' s hs with hold | ⟨_, hge, _⟩
+      · exact hverd id k hk s hold
+      · rcases hveribOld with v0 | vlt
+        · exact Or.inl v0
+        · exact Or.inr (Or.inr (Or.inl (by omega)))
+    · exact hverd i2 x2 hx2' s hs
+    · rcases hwr' s hs with hold | ⟨_, hge, _⟩
+      · exact hI.verdisj i1 id x1 k hx1' hk s hold
+      · exact verOld i1 x1 hx1' s hge
+    · exact hI.verdisj i1 i2 x1 x2 hx1' hx2' s hs
+  · intro r i hreg
+    rw [hregs] at hreg
+    have := hI.regs r i hreg
+    rw [hobjs, Array.set!_eq_setIfInBounds, Array.size_setIfInBounds]; exact this
+  · intro i x hx hp
+    rcases lookup i x hx with ⟨_, rfl⟩ | ⟨_, hx'⟩
+    · have hb := hI.bounds id k hk
+      have hpk : (h'.absKey x).pubKeyBytes = (h.absKey k).pubKeyBytes := by
+        apply pubKeyBytes_congr
+        · show h'.read x.key = h.read k.key
+          rw [hkey]; exact e.read _ (hb _ (by simp [HKey.writable]))
+        · exact hpriv
+      rw [hpk]
+      rcases hpub with hpe | ⟨_, _, hrd⟩
+      · rw [hpe]
+        rcases hI.cache id k hk (hpriv.symm.trans hp) with h0 | hc
+        · exact Or.inl h0
+        · right; rw [e.read _ (hb _ (by simp [HKey.writable]))]; exact hc
+      · exact Or.inr (hrd (hpriv.symm.trans hp))
+    · rcases hI.cache i x hx' hp with h0 | hc
+      · exact Or.inl h0
+      · right
+        have hb := hI.bounds i x hx'
+        rw [absKey_ext e x hb, e.read _ (hb _ (by simp [HKey.writable]))]
+        exact hc
+
+
+theorem abs_replace {nets : List Net} {h h' : Heap} (hI : Inv nets h) (e : Ext h h') (id : Nat) (k' : HKey)
+    (hobjs : h'.objs = h.objs.set! id k') (hregs : h'.regs = h.regs) :
+    h'.abs = { objs := h.abs.objs.set! id (h'.absKey k'), regs := h.abs.regs } := by
+  unfold Heap.abs
+  simp only []
+  rw [hregs, hobjs, Array.set!_eq_setIfInBounds, Array.set!_eq_setIfInBounds, Array.map_setIfInBounds]
+  congr 2
+  exact map_absKey_ext hI e
+
+theorem set_self {α} (xs : Array α) (id : Nat) (x : α) (h : xs[id]? = some x) : xs.set! id x = xs := by
+  apply Array.ext_getElem?
+  intro i
+  rw [Array.set!_eq_setIfInBounds, Array.getElem?_setIfInBounds]
+  split
+  · rename_i hi; subst hi
+    rcases Array.getElem?_eq_some_iff.1 h with ⟨hlt, _⟩
+    rw [if_pos hlt, h]
+  · rfl
+
+/-- `pubKeyBytes()` (cache fill) keeps the invariant, changes no denoted value, no register and no
+version slice -/
+theorem cachePub_spec {nets : List Net} {h : Heap} (hI : Inv nets h) (id : Nat) :
+    Inv nets (h.cachePub id) ∧ Ext h (h.cachePub id) ∧ (h.cachePub id).abs = h.abs ∧
+    (h.cachePub id).regs = h.regs ∧ (h.cachePub id).objs.size = h.objs.size ∧
+    (∀ (i : Nat) x, h.objs[i]? = some x → ∃ x', (h.cachePub id).objs[i]? = some x' ∧ x'.version = x.version) := by
+  unfold Heap.cachePub
+  cases hk : h.objs[id]? with
+  | none => exact ⟨hI, Ext.refl h, rfl, rfl, rfl, fun i x hx => ⟨x, hx, rfl⟩⟩
+  | some k =>
+    simp only []
+    split
+    · rename_i hcond
+      simp only [Bool.and_eq_true, beq_iff_eq] at hcond
+      obtain ⟨hp, hl0⟩ := hcond
+      generalize hb : (h.absKey k).pubKeyBytes = b
+      let k' : HKey := { k with pubKey := ⟨h.mem.size, 0, b.length⟩ }
+      let h' : Heap := { h with mem := h.mem.push b, objs := h.objs.set! id k' }
+      have e : Ext h h' := ext_push h b _ _
+      have hidlt : id < h.objs.size := by rcases Array.getElem?_eq_some_iff.1 hk with ⟨hlt, _⟩; exact hlt
+      have hnew : h'.arrAt h.mem.size = b := arrAt_push_new h.mem b _ _
+      have hib : h'.inBounds k'.pubKey := by
+        right
+        refine ⟨?_, ?_⟩
+        · show h.mem.size < (h.mem.push b).size; rw [Array.size_push]; omega
+        · show 0 + b.length ≤ (h'.arrAt h.mem.size).length; rw [hnew]; omega
+      have hrd : h'.read k'.pubKey = b := by
+        rw [read_def]; show ((h'.arrAt h.mem.size).drop 0).take b.length = b
+        rw [hnew]; simp
+      have hinv : Inv nets h' :=
+        Inv.replace hI e id k k' hk rfl rfl rfl rfl rfl rfl
+          (Or.inr ⟨Nat.le_refl _, hib, fun _ => by rw [hrd, hb]⟩) (Or.inl rfl)
+      have habs : h'.abs = h.abs := by
+        rw [abs_replace hI e id k' rfl rfl]
+        have : h'.absKey k' = h.absKey k := absKey_ext e k (hI.bounds id k hk)
+        rw [this]
+        show ({ objs := h.abs.objs.set! id (h.absKey k), regs := h.abs.regs } : State) = h.abs
+        have hs : h.abs.objs.set! id (h.absKey k) = h.abs.objs := by
+          apply set_self
+          show (h.objs.map h.absKey)[id]? = _
+          rw [Array.getElem?_map, hk]; rfl
+        rw [hs]
+      refine ⟨hinv, e, habs, rfl, ?_, ?_⟩
+      · show (h.objs.set! id k').size = _
+        rw [Array.set!_eq_setIfInBounds, Array.size_setIfInBounds]
+      · intro i x hx
+        show ∃ x', (h.objs.set! id k')[i]? = some x' ∧ _
+        rw [Array.set!_eq_setIfInBounds, Array.getElem?_setIfInBounds]
+        by_cases hi : id = i
+        · subst hi
+          rw [if_pos rfl, if_pos hidlt]
+          rw [hk] at hx; injection hx with hx; subst hx
+          exact ⟨k', rfl, rfl⟩
+        · rw [if_neg hi]; exact ⟨x, hx, rfl⟩
+    · exact ⟨hI, Ext.refl h, rfl, rfl, rfl, fun i x hx => ⟨x, hx, rfl⟩⟩
+
+
+/-! ### Zero -/
+
+/-- `zero(·)` through a list of slices, in order -/
+def writeAll (h : Heap) (ss : List Slice) : Heap := ss.foldl Heap.writeZeros h
+
+theorem writeAll_cons (h : Heap) (s : Slice) (ss : List Slice) :
+    writeAll h (s :: ss) = writeAll (h.writeZeros s) ss := rfl
+
+theorem writeAll_frame (h : Heap) (ss : List Slice) :
+    (writeAll h ss).mem.size = h.mem.size ∧ (writeAll h ss).objs = h.objs ∧ (writeAll h ss).regs = h.regs := by
+  induction ss generalizing h with
+  | nil => exact ⟨rfl, rfl, rfl⟩
+  | cons s ss ih =>
+    rw [writeAll_cons]
+    obtain ⟨a, b, c⟩ := ih (h.writeZeros s)
+    exact ⟨a.trans (writeZeros_size h s), b, c⟩
+
+theorem writeAll_inBounds (h : Heap) (ss : List Slice) (hs : ∀ s ∈ ss, h.inBounds s) (t : Slice)
+    (ht : h.inBounds t) : (writeAll h ss).inBounds t := by
+  induction ss generalizing h with
+  | nil => exact ht
+  | cons s ss ih =>
+    rw [writeAll_cons]
+    have hs0 := hs s (by simp)
+    exact ih (h.writeZeros s)
+      (fun u hu => inBounds_writeZeros h s u hs0 (hs u (List.mem_cons_of_mem _ hu)))
+      (inBounds_writeZeros h s t hs0 ht)
+
+theorem writeAll_read (h : Heap) (ss : List Slice) (hs : ∀ s ∈ ss, h.inBounds s) (t : Slice)
+    (hd : ∀ s ∈ ss, t.disjoint s) : (writeAll h ss).read t = h.read t := by
+  induction ss generalizing h with
+  | nil => rfl
+  | cons s ss ih =>
+    rw [writeAll_cons]
+    have hs0 := hs s (by simp)
+    rw [ih (h.writeZeros s)
+      (fun u hu => inBounds_writeZeros h s u hs0 (hs u (List.mem_cons_of_mem _ hu)))
+      (fun u hu => hd u (List.mem_cons_of_mem _ hu))]
+    exact read_writeZeros_disjoint h s t hs0 (hd s (by simp))
+
+theorem writeAll_zeroAt (h : Heap) (ss : List Slice) (hs : ∀ s ∈ ss, h.inBounds s) (t : Slice)
+    (ht : h.inBounds t) (hz : h.zeroAt t ∨ t ∈ ss) : (writeAll h ss).zeroAt t := by
+  induction ss generalizing h with
+  | nil =>
+    rcases hz with hz | hz
+    · exact hz
+    · cases hz
+  | cons s ss ih =>
+    rw [writeAll_cons]
+    have hs0 := hs s (by simp)
+    apply ih (h.writeZeros s)
+      (fun u hu => inBounds_writeZeros h s u hs0 (hs u (List.mem_cons_of_mem _ hu)))
+      (inBounds_writeZeros h s t hs0 ht)
+    rcases hz with hz | hz
+    · exact Or.inl (zeroAt_writeZeros h s t hs0 ht hz)
+    · rcases List.mem_cons.1 hz with rfl | hz'
+      · exact Or.inl (zeroAt_writeZeros_self h t hs0)
+      · exact Or.inr hz'
+
+theorem patch_zero_len (o : Nat) (b : Bytes) : patch o 0 b = b := by
+  unfold patch; simp
+
+theorem writeZeros_mem (h : Heap) (s : Slice) (a : Nat) (ha : s.len = 0 ∨ s.arr ≠ a) :
+    (h.writeZeros s).mem[a]? = h.mem[a]? := by
+  unfold Heap.writeZeros
+  simp only [Array.getElem?_modify]
+  split
+  · rename_i he
+    rcases ha with h0 | hne
+    · rw [h0]
+      cases h.mem[a]? with
+      | none => rfl
+      | some b => simp only [Option.map_some]; congr 1; exact patch_zero_len _ _
+    · exact absurd he hne
+  · rfl
+
+theorem writeAll_mem (h : Heap) (ss : List Slice) (a : Nat) (ha : ∀ s ∈ ss, s.len = 0 ∨ s.arr ≠ a) :
+    (writeAll h ss).mem[a]? = h.mem[a]? := by
+  induction ss generalizing h with
+  | nil => rfl
+  | cons s ss ih =>
+    rw [writeAll_cons, ih _ (fun u hu => ha u (List.mem_cons_of_mem _ hu))]
+    exact writeZeros_mem h s a (ha s (by simp))
+
+theorem disjoint_of_arr {s t : Slice} (h : s.len = 0 ∨ t.len = 0 ∨ s.arr ≠ t.arr) : s.disjoint t := by
+  rcases h with h | h | h
+  · exact Or.inl h
+  · exact Or.inr (Or.inl h)
+  · exact Or.inr (Or.inr (Or.inl h))
+
+/-- the heap after `Zero()` on record `id` -/
+def zeroHeap (h : Heap) (id : Nat) (k : HKey) : Heap :=
+  let h1 := (((h.writeZeros k.key).writeZeros k.pubKey).writeZeros k.chainCode).writeZeros k.parentFP
+  let k' : HKey := { k with key := Slice.nil, version := Slice.nil, depth := 0, childNum := 0, isPrivate := false }
+  { h1 with objs := h1.objs.set! id k' }
+
+theorem zeroHeap_spec {nets : List Net} {h : Heap} (hI : Inv nets h) (id : Nat) (k : HKey)
+    (hk : h.objs[id]? = some k) :
+    Inv nets (zeroHeap h id k) ∧
+    (zeroHeap h id k).abs = { objs := h.abs.objs.set! id (Bip32.zero (h.absKey k)), regs := h.abs.regs } := by
+  let k' : HKey := { k with key := Slice.nil, version := Slice.nil, depth := 0, childNum := 0, isPrivate := false }
+  have hw : (((h.writeZeros k.key).writeZeros k.pubKey).writeZeros k.chainCode).writeZeros k.parentFP
+      = writeAll h k.writable := rfl
+  obtain ⟨wsz, wobjs, wregs⟩ := writeAll_frame h k.writable
+  have hzh : zeroHeap h id k = { writeAll h k.writable with objs := h.objs.set! id k' } := by
+    unfold zeroHeap; simp only []; rw [hw, wobjs]
+  have hbk : ∀ s ∈ k.writable, h.inBounds s := fun s hs => hI.bounds id k hk s (List.mem_cons_of_mem _ hs)
+  -- frame facts for the new heap
+  have rd : ∀ t, (∀ s ∈ k.writable, t.disjoint s) → (zeroHeap h id k).read t = h.read t := by
+    intro t ht; rw [hzh]; exact writeAll_read h k.writable hbk t ht
+  have ib : ∀ t, h.inBounds t → (zeroHeap h id k).inBounds t := by
+    intro t ht; rw [hzh]; exact writeAll_inBounds h k.writable hbk t ht
+  have za : ∀ t ∈ k.writable, (zeroHeap h id k).read t = List.replicate t.len 0 := by
+    intro t ht; rw [hzh]; exact writeAll_zeroAt h k.writable hbk t (hbk t ht) (Or.inr ht)
+  have hobjs : (zeroHeap h id k).objs = h.objs.set! id k' := by rw [hzh]
+  have hregs : (zeroHeap h id k).regs = h.regs := by rw [hzh]; exact wregs
+  have hsz : (zeroHeap h id k).mem.size = h.mem.size := by rw [hzh]; exact wsz
+  have hnm : ∀ a, a < 2 * nets.length → (zeroHeap h id k).mem[a]? = h.mem[a]? := by
+    intro a ha
+    rw [hzh]
+    show (writeAll h k.writable).mem[a]? = _
+    exact writeAll_mem h k.writable a (fun s hs => by
+      rcases hI.wr id k hk s hs with h0 | hge
+      · exact Or.inl h0
+      · exact Or.inr (by omega))
+  clear hzh hw
+  generalize zeroHeap h id k = Z at *
+  have lookup : ∀ (i : Nat) x, Z.objs[i]? = some x →
+      (i = id ∧ x = k') ∨ (i ≠ id ∧ h.objs[i]? = some x) := by
+    intro i x hx
+    rw [hobjs] at hx
+    rcases set_getElem?_some _ _ _ _ _ hx with ⟨a, b, _⟩ | ⟨a, b⟩
+    · exact Or.inl ⟨a, b⟩
+    · exact Or.inr ⟨a, b⟩
+  have hidlt : id < h.objs.size := by rcases Array.getElem?_eq_some_iff.1 hk with ⟨hlt, _⟩; exact hlt
+  -- writable slices of the zeroed record are old ones or nil
+  have hwr' : ∀ s ∈ k'.writable, s.len = 0 ∨ s ∈ k.writable := by
+    intro s hs
+    simp only [HKey.writable, List.mem_cons, List.not_mem_nil, or_false] at hs ⊢
+    rcases hs with rfl | rfl | rfl | rfl
+    · exact Or.inl rfl
+    · exact Or.inr (Or.inr (Or.inl rfl))
+    · exact Or.inr (Or.inr (Or.inr (Or.inl rfl)))
+    · exact Or.inr (Or.inr (Or.inr (Or.inr rfl)))
+  -- other records keep their value
+  have other : ∀ (i : Nat) x, i ≠ id → h.objs[i]? = some x →
+      Z.absKey x = h.absKey x ∧ Z.read x.pubKey = h.read x.pubKey := by
+    intro i x hi hx
+    have dw : ∀ t ∈ x.writable, ∀ s ∈ k.writable, t.disjoint s := fun t ht s hs =>
+      disjoint_of_arr (hI.disj i id x k hx hk hi t ht s hs)
+    refine ⟨?_, rd _ (dw _ (by simp [HKey.writable]))⟩
+    apply absKey_congr
+    intro t ht
+    simp only [List.mem_cons, List.not_mem_nil, or_false] at ht
+    rcases ht with rfl | rfl | rfl | rfl
+    · exact rd _ (dw _ (by simp [HKey.writable]))
+    · exact rd _ (dw _ (by simp [HKey.writable]))
+    · exact rd _ (dw _ (by simp [HKey.writable]))
+    · exact rd _ (fun s hs => hI.verdisj i id x k hx hk s hs)
+  constructor
+  · refine ⟨?_, ?_, ?_, ?_, ?_, ?_, ?_, ?_⟩
+    · intro a ha
+      rw [hnm a ha]; exact hI.netMem a ha
+    · rw [hsz]; exact hI.size
+    · intro i x hx s hs
+      rcases lookup i x hx with ⟨_, rfl⟩ | ⟨_, hx'⟩
+      · rcases List.mem_cons.1 hs with rfl | hs'
+        · exact Or.inl rfl
+        · rcases hwr' s hs' with h0 | hold
+          · exact Or.inl h0
+          · exact ib s (hbk s hold)
+      · exact ib s (hI.bounds i x hx' s hs)
+    · intro i x hx s hs
+      rcases lookup i x hx with ⟨_, rfl⟩ | ⟨_, hx'⟩
+      · rcases hwr' s hs with h0 | hold
+        · exact Or.inl h0
+        · exact hI.wr id k hk s hold
+      · exact hI.wr i x hx' s hs
+    · intro i1 i2 x1 x2 hx1 hx2 hne s1 hs1 s2 hs2
+      rcases lookup i1 x1 hx1 with ⟨a1, rfl⟩ | ⟨a1, hx1'⟩ <;>
+        rcases lookup i2 x2 hx2 with ⟨a2, rfl⟩ | ⟨a2, hx2'⟩
+      · exact absurd (a1.trans a2.symm) hne
+      · rcases hwr' s1 hs1 with h0 | hold
+        · exact Or.inl h0
+        · exact hI.disj id i2 k x2 hk hx2' (fun e => a2 e.symm) s1 hold s2 hs2
+      · rcases hwr' s2 hs2 with h0 | hold
+        · exact Or.inr (Or.inl h0)
+        · exact hI.disj i1 id x1 k hx1' hk a1 s1 hs1 s2 hold
+      · exact hI.disj i1 i2 x1 x2 hx1' hx2' hne s1 hs1 s2 hs2
+    · intro i1 i2 x1 x2 hx1 hx2 s hs
+      rcases lookup i1 x1 hx1 with ⟨a1, rfl⟩ | ⟨a1, hx1'⟩
+      · exact Or.inl rfl
+      · rcases lookup i2 x2 hx2 with ⟨a2, rfl⟩ | ⟨a2, hx2'⟩
+        · rcases hwr' s hs with h0 | hold
+          · exact Or.inr (Or.inl h0)
+          · exact hI.verdisj i1 id x1 k hx1' hk s hold
+        · exact hI.verdisj i1 i2 x1 x2 hx1' hx2' s hs
+    · intro r i hreg
+      rw [hregs] at hreg
+      have := hI.regs r i hreg
+      rw [hobjs, Array.set!_eq_setIfInBounds, Array.size_setIfInBounds]; exact this
+    · intro i x hx hp
+      rcases lookup i x hx with ⟨_, rfl⟩ | ⟨hi, hx'⟩
+      · cases hp
+      · obtain ⟨e1, e2⟩ := other i x hi hx'
+        rw [e1, e2]
+        exact hI.cache i x hx' hp
+  · -- abstraction
+    have hzk : Z.absKey k' = Bip32.zero (h.absKey k) := by
+      have c1 := za k.chainCode (by simp [HKey.writable])
+      have c2 := za k.parentFP (by simp [HKey.writable])
+      have l1 := read_length h k.chainCode (hbk _ (by simp [HKey.writable]))
+      have l2 := read_length h k.parentFP (hbk _ (by simp [HKey.writable]))
+      have e1 : Z.absKey k' =
+          { key := Z.read Slice.nil, chainCode := Z.read k.chainCode,
+            parentFP := Z.read k.parentFP, version := Z.read Slice.nil,
+            childNum := 0, depth := 0, isPrivate := false } := rfl
+      have e2 : Bip32.zero (h.absKey k) =
+          { key := [], chainCode := List.replicate (h.read k.chainCode).length 0,
+            parentFP := List.replicate (h.read k.parentFP).length 0, version := [],
+            childNum := 0, depth := 0, isPrivate := false } := rfl
+      rw [e1, e2, c1, c2, l1, l2, read_nil_len _ _ rfl]
+    unfold Heap.abs
+    simp only []
+    rw [hregs, hobjs]
+    congr 1
+    apply Array.ext_getElem?
+    intro i
+    rw [Array.getElem?_map, Array.set!_eq_setIfInBounds, Array.set!_eq_setIfInBounds,
+      Array.getElem?_setIfInBounds, Array.getElem?_setIfInBounds, Array.size_map, Array.getElem?_map]
+    by_cases hi : id = i
+    · subst hi
+      rw [if_pos rfl, if_pos rfl, if_pos hidlt, if_pos hidlt, Option.map_some, hzk]
+    · rw [if_neg hi, if_neg hi]
+      cases hx : h.objs[i]? with
+      | none => rfl
+      | some x =>
+        simp only [Option.map_some]
+        rw [(other i x (fun e => hi e.symm) hx).1]
+
+
+/-! ### the constructors -/
+
+/-- a version slice that may be given to a new record: the version slice of an existing record, nil,
+or a slice of a network array -/
+def GoodVersion (nets : List Net) (h : Heap) (v : Slice) : Prop :=
+  (∃ (id : Nat) (k : HKey), h.objs[id]? = some k ∧ k.version = v) ∨ v.len = 0 ∨
+    (v.arr < 2 * nets.length ∧ h.inBounds v)
+
+theorem GoodVersion.facts {nets : List Net} {h : Heap} (hI : Inv nets h) {v : Slice} (g : GoodVersion nets h v) :
+    h.inBounds v ∧ (v.len = 0 ∨ v.arr < h.mem.size) ∧
+    (∀ (id2 : Nat) k2, h.objs[id2]? = some k2 → ∀ s ∈ k2.writable, v.disjoint s) := by
+  rcases g with ⟨id, k, hk, rfl⟩ | h0 | ⟨hlt, hb⟩
+  · have hb := hI.bounds id k hk k.version (by simp)
+    refine ⟨hb, ?_, fun id2 k2 hk2 s hs => hI.verdisj id id2 k k2 hk hk2 s hs⟩
+    by_cases v0 : k.version.len = 0
+    · exact Or.inl v0
+    · exact Or.inr (inBounds_arr_lt hb v0)
+  · exact ⟨Or.inl h0, Or.inl h0, fun _ _ _ _ _ => Or.inl h0⟩
+  · refine ⟨hb, Or.inr (Nat.lt_of_lt_of_le hlt hI.size), fun id2 k2 hk2 s hs => ?_⟩
+    rcases hI.wr id2 k2 hk2 s hs with s0 | hge
+    · exact Or.inr (Or.inl s0)
+    · exact Or.inr (Or.inr (Or.inl (by omega)))
+
+theorem push3_getElem? (m : Array Bytes) (a b c : Bytes) (i : Nat) (hi : i < m.size) :
+    (((m.push a).push b).push c)[i]? = m[i]? := by
+  rw [Array.getElem?_push, if_neg (by simp only [Array.size_push]; omega), Array.getElem?_push,
+    if_neg (by simp only [Array.size_push]; omega), Array.getElem?_push, if_neg (by omega)]
+
+theorem push3_arrAt (m : Array Bytes) (a b c : Bytes) (objs : Array HKey) (regs : Array (Option Nat)) :
+    (Heap.mk (((m.push a).push b).push c) objs regs).arrAt m.size = a ∧
+    (Heap.mk (((m.push a).push b).push c) objs regs).arrAt (m.size + 1) = b ∧
+    (Heap.mk (((m.push a).push b).push c) objs regs).arrAt (m.size + 2) = c := by
+  unfold Heap.arrAt
+  simp only [Array.getD_eq_getD_getElem?]
+  refine ⟨?_, ?_, ?_⟩
+  · rw [Array.getElem?_push, if_neg (by simp only [Array.size_push]; omega), Array.getElem?_push,
+      if_neg (by simp only [Array.size_push]; omega), Array.getElem?_push_size]; rfl
+  · rw [Array.getElem?_push, if_neg (by simp only [Array.size_push]; omega), Array.getElem?_push,
+      if_pos (by simp only [Array.size_push])]; rfl
+  · rw [Array.getElem?_push, if_pos (by simp only [Array.size_push])]; rfl
+
+/-- three fresh arrays `a, b, c` and a record with `key ⊆ a|b|c …`: the common shape of `Child`
+and `Neuter` -/
+theorem fresh3_spec {nets : List Net} {h : Heap} (hI : Inv nets h) (a b c : Bytes) (nk : HKey)
+    (hv : GoodVersion nets h nk.version) (hc : nk.pubKey.len = 0)
+    (hw : ∀ s ∈ nk.writable, s.len = 0 ∨
+        (s.arr = h.mem.size ∧ s.off + s.len ≤ a.length) ∨
+        (s.arr = h.mem.size + 1 ∧ s.off + s.len ≤ b.length) ∨
+        (s.arr = h.mem.size + 2 ∧ s.off + s.len ≤ c.length)) :
+    let h2 : Heap := { h with mem := ((h.mem.push a).push b).push c }
+    Inv nets (h2.pushKey nk) ∧ (h2.pushKey nk).abs = h.abs.newObj (.ok (h2.absKey nk)) ∧ Ext h h2 := by
+  intro h2
+  have e : Ext h h2 := fun i hi => push3_getElem? h.mem a b c i hi
+  obtain ⟨ea, eb, ec⟩ := push3_arrAt h.mem a b c h.objs h.regs
+  have hsz : h2.mem.size = h.mem.size + 3 := by
+    show (((h.mem.push a).push b).push c).size = _
+    simp only [Array.size_push]
+  obtain ⟨vb, vlt, vd⟩ := hv.facts hI
+  refine ⟨?_, abs_pushKey hI e rfl rfl nk, e⟩
+  apply Inv.pushKey hI e rfl rfl nk
+  · intro s hs
+    rcases hw s hs with h0 | ⟨h1, h2'⟩ | ⟨h1, h2'⟩ | ⟨h1, h2'⟩
+    · exact Or.inl h0
+    · exact Or.inr ⟨by omega, Or.inr ⟨by omega, by rw [h1]; show _ ≤ (h2.arrAt h.mem.size).length; rw [ea]; exact h2'⟩⟩
+    · exact Or.inr ⟨by omega, Or.inr ⟨by omega, by rw [h1]; show _ ≤ (h2.arrAt (h.mem.size + 1)).length; rw [eb]; exact h2'⟩⟩
+    · exact Or.inr ⟨by omega, Or.inr ⟨by omega, by rw [h1]; show _ ≤ (h2.arrAt (h.mem.size + 2)).length; rw [ec]; exact h2'⟩⟩
+  · exact e.inBounds _ vb
+  · intro s hs
+    rcases vlt with v0 | vl
+    · exact Or.inl v0
+    · rcases hw s hs with h0 | ⟨h1, _⟩ | ⟨h1, _⟩ | ⟨h1, _⟩
+      · exact Or.inr (Or.inl h0)
+      · exact Or.inr (Or.inr (Or.inl (by omega)))
+      · exact Or.inr (Or.inr (Or.inl (by omega)))
+      · exact Or.inr (Or.inr (Or.inl (by omega)))
+  · exact vd
+  · exact hc
+
+
+theorem read_mk (h : Heap) (a o n : Nat) : h.read ⟨a, o, n⟩ = ((h.arrAt a).drop o).take n := rfl
+
+/-- `Child` (and the last `Child` of a path): the new record denotes `c` with the parent's version -/
+theorem newChild_spec {nets : List Net} {h : Heap} (hI : Inv nets h) (v : Slice) (c : XKey)
+    (hv : GoodVersion nets h v) :
+    Inv nets (h.newChild v c) ∧
+    (h.newChild v c).abs = h.abs.newObj (.ok { c with version := h.read v }) := by
+  let nk : HKey := { key := ⟨h.mem.size + 1, 0, c.key.length⟩, pubKey := Slice.nil,
+                     chainCode := ⟨h.mem.size, 32, c.chainCode.length⟩,
+                     parentFP := ⟨h.mem.size + 2, 0, c.parentFP.length⟩, version := v,
+                     childNum := c.childNum, depth := c.depth, isPrivate := c.isPrivate }
+  have hw : ∀ s ∈ nk.writable, s.len = 0 ∨
+        (s.arr = h.mem.size ∧ s.off + s.len ≤ (List.replicate 32 (0 : UInt8) ++ c.chainCode).length) ∨
+        (s.arr = h.mem.size + 1 ∧ s.off + s.len ≤ c.key.length) ∨
+        (s.arr = h.mem.size + 2 ∧ s.off + s.len ≤ (c.parentFP ++ List.replicate 16 (0 : UInt8)).length) := by
+    intro s hs
+    simp only [HKey.writable, List.mem_cons, List.not_mem_nil, or_false] at hs
+    rcases hs with rfl | rfl | rfl | rfl
+    · exact Or.inr (Or.inr (Or.inl ⟨rfl, by show 0 + c.key.length ≤ _; omega⟩))
+    · exact Or.inl rfl
+    · exact Or.inr (Or.inl ⟨rfl, by show 32 + c.chainCode.length ≤ _; rw [List.length_append, List.length_replicate]⟩)
+    · exact Or.inr (Or.inr (Or.inr ⟨rfl, by show 0 + c.parentFP.length ≤ _; rw [List.length_append]; omega⟩))
+  obtain ⟨h1, h2, e⟩ := fresh3_spec hI (List.replicate 32 0 ++ c.chainCode) c.key
+    (c.parentFP ++ List.replicate 16 0) nk hv rfl hw
+  refine ⟨h1, ?_⟩
+  show (Heap.pushKey _ nk).abs = _
+  rw [h2]
+  congr 2
+  obtain ⟨ea, eb, ec⟩ := push3_arrAt h.mem (List.replicate 32 0 ++ c.chainCode) c.key
+    (c.parentFP ++ List.replicate 16 0) h.objs h.regs
+  unfold Heap.absKey
+  simp only [nk, read_mk, ea, eb, ec]
+  have r1 : ((List.replicate 32 (0 : UInt8) ++ c.chainCode).drop 32).take c.chainCode.length = c.chainCode := by
+    rw [List.drop_left' (by simp)]; simp
+  have r2 : ((c.parentFP ++ List.replicate 16 (0 : UInt8)).drop 0).take c.parentFP.length = c.parentFP := by
+    simp
+  have r3 : (c.key.drop 0).take c.key.length = c.key := by simp
+  rw [r1, r2, r3, e.read v (hv.facts hI).1]
+
+
+/-- `Neuter` of a private key: three fresh copies -/
+theorem newNeutered_spec {nets : List Net} {h : Heap} (hI : Inv nets h) (v : Slice) (c : XKey)
+    (hv : GoodVersion nets h v) :
+    Inv nets (h.newNeutered v c) ∧
+    (h.newNeutered v c).abs = h.abs.newObj (.ok { c with version := h.read v }) := by
+  let nk : HKey := { key := ⟨h.mem.size, 0, c.key.length⟩, pubKey := Slice.nil,
+                     chainCode := ⟨h.mem.size + 1, 0, c.chainCode.length⟩,
+                     parentFP := ⟨h.mem.size + 2, 0, c.parentFP.length⟩, version := v,
+                     childNum := c.childNum, depth := c.depth, isPrivate := c.isPrivate }
+  have hw : ∀ s ∈ nk.writable, s.len = 0 ∨
+        (s.arr = h.mem.size ∧ s.off + s.len ≤ c.key.length) ∨
+        (s.arr = h.mem.size + 1 ∧ s.off + s.len ≤ c.chainCode.length) ∨
+        (s.arr = h.mem.size + 2 ∧ s.off + s.len ≤ c.parentFP.length) := by
+    intro s hs
+    simp only [HKey.writable, List.mem_cons, List.not_mem_nil, or_false] at hs
+    rcases hs with rfl | rfl | rfl | rfl
+    · exact Or.inr (Or.inl ⟨rfl, by show 0 + c.key.length ≤ _; omega⟩)
+    · exact Or.inl rfl
+    · exact Or.inr (Or.inr (Or.inl ⟨rfl, by show 0 + c.chainCode.length ≤ _; omega⟩))
+    · exact Or.inr (Or.inr (Or.inr ⟨rfl, by show 0 + c.parentFP.length ≤ _; omega⟩))
+  obtain ⟨h1, h2, e⟩ := fresh3_spec hI c.key c.chainCode c.parentFP nk hv rfl hw
+  refine ⟨h1, ?_⟩
+  show (Heap.pushKey _ nk).abs = _
+  rw [h2]
+  congr 2
+  obtain ⟨ea, eb, ec⟩ := push3_arrAt h.mem c.key c.chainCode c.parentFP h.objs h.regs
+  unfold Heap.absKey
+  simp only [nk, read_mk, ea, eb, ec]
+  have r1 : (c.chainCode.drop 0).take c.chainCode.length = c.chainCode := by simp
+  have r2 : (c.parentFP.drop 0).take c.parentFP.length = c.parentFP := by simp
+  have r3 : (c.key.drop 0).take c.key.length = c.key := by simp
+  rw [r1, r2, r3, e.read v (hv.facts hI).1]
+
+/-! ### network version slices -/
+
+theorem netSlice_facts {nets : List Net} {h : Heap} (hI : Inv nets h) (n : Nat) (net : Net)
+    (hn : nets[n]? = some net) :
+    ((privSlice nets n).arr < 2 * nets.length ∧ h.inBounds (privSlice nets n)) ∧
+    h.read (privSlice nets n) = net.hdPriv ∧
+    ((pubSlice nets n).arr < 2 * nets.length ∧ h.inBounds (pubSlice nets n)) ∧
+    h.read (pubSlice nets n) = net.hdPub := by
+  have hlt : n < nets.length := by
+    rcases List.getElem?_eq_some_iff.1 hn with ⟨hlt, _⟩; exact hlt
+  obtain ⟨m1, m2⟩ := netMem_getElem? nets n
+  rw [hn] at m1 m2
+  have a1 : h.arrAt (2 * n) = net.hdPriv := by
+    unfold Heap.arrAt; rw [Array.getD_eq_getD_getElem?, hI.netMem _ (by omega), m1]; rfl
+  have a2 : h.arrAt (2 * n + 1) = net.hdPub := by
+    unfold Heap.arrAt; rw [Array.getD_eq_getD_getElem?, hI.netMem _ (by omega), m2]; rfl
+  have p1 : privSlice nets n = ⟨2 * n, 0, net.hdPriv.length⟩ := by unfold privSlice; rw [hn]; rfl
+  have p2 : pubSlice nets n = ⟨2 * n + 1, 0, net.hdPub.length⟩ := by unfold pubSlice; rw [hn]; rfl
+  have hs := hI.size
+  have b1 : h.inBounds ⟨2 * n, 0, net.hdPriv.length⟩ :=
+    Or.inr ⟨by show 2 * n < _; omega, by show 0 + net.hdPriv.length ≤ (h.arrAt (2 * n)).length; rw [a1]; omega⟩
+  have b2 : h.inBounds ⟨2 * n + 1, 0, net.hdPub.length⟩ :=
+    Or.inr ⟨by show 2 * n + 1 < _; omega, by show 0 + net.hdPub.length ≤ (h.arrAt (2 * n + 1)).length; rw [a2]; omega⟩
+  rw [p1, p2]
+  refine ⟨⟨by show 2 * n < _; omega, b1⟩, ?_, ⟨by show 2 * n + 1 < _; omega, b2⟩, ?_⟩
+  · rw [read_mk, a1]; simp
+  · rw [read_mk, a2]; simp
+
+/-- `SetNet`: only the version slice of the receiver is repointed -/
+theorem setNet_spec {nets : List Net} {h : Heap} (hI : Inv nets h) (id n : Nat) (k : HKey) (net : Net)
+    (hk : h.objs[id]? = some k) (hn : nets[n]? = some net) :
+    let k' : HKey := { k with version := if k.isPrivate then privSlice nets n else pubSlice nets n }
+    let h' : Heap := { h with objs := h.objs.set! id k' }
+    Inv nets h' ∧
+    h'.abs = { objs := h.abs.objs.set! id (Bip32.setNet (h.absKey k) net.hdPriv net.hdPub), regs := h.abs.regs } := by
+  intro k' h'
+  obtain ⟨g1, r1, g2, r2⟩ := netSlice_facts hI n net hn
+  have e : Ext h h' := ext_same_mem h _ _
+  have gv : k'.version.arr < 2 * nets.length ∧ h.inBounds k'.version := by
+    show (if k.isPrivate then privSlice nets n else pubSlice nets n).arr < _ ∧
+      h.inBounds (if k.isPrivate then privSlice nets n else pubSlice nets n)
+    cases k.isPrivate
+    · exact g2
+    · exact g1
+  refine ⟨Inv.replace hI e id k k' hk rfl rfl rfl rfl rfl rfl (Or.inl rfl) (Or.inr (Or.inr gv)), ?_⟩
+  rw [abs_replace hI e id k' rfl rfl]
+  congr 2
+  unfold Heap.absKey Bip32.setNet
+  show ({ key := h.read k.key, chainCode := h.read k.chainCode, parentFP := h.read k.parentFP,
+          version := h.read (if k.isPrivate then privSlice nets n else pubSlice nets n),
+          childNum := k.childNum, depth := k.depth, isPrivate := k.isPrivate } : XKey) = _
+  cases hp : k.isPrivate
+  · simp only [Bool.false_eq_true, if_false, r2]
+  · simp only [if_true, r1]
+
+
+/-! ### NewKeyFromString and NewMaster -/
+
+theorem take_drop_take {α} (d : List α) (t o n : Nat) (h : o + n ≤ t) :
+    ((d.take t).drop o).take n = (d.drop o).take n := by
+  apply List.ext_getElem?
+  intro i
+  simp only [List.getElem?_take, List.getElem?_drop]
+  by_cases hi : i < n
+  · rw [if_pos hi, if_pos hi, if_pos (by omega)]
+  · rw [if_neg hi, if_neg hi]
+
+theorem drop_take_drop {α} (d : List α) (o n j : Nat) (h : j ≤ n) :
+    ((d.drop o).take n).drop j = (d.drop (o + j)).take (n - j) := by
+  apply List.ext_getElem?
+  intro i
+  simp only [List.getElem?_take, List.getElem?_drop]
+  by_cases hi : i < n - j
+  · rw [if_pos hi, if_pos (by omega)]; congr 1; omega
+  · rw [if_neg hi, if_neg (by omega)]
+
+/-- `NewKeyFromString`: one fresh 82-byte array, five ranges of it -/
+theorem newParsed_spec {nets : List Net} {h : Heap} (hI : Inv nets h) (d : Bytes) (c : XKey)
+    (hd : d.length = 82) :
+    Inv nets (h.newParsed d c) ∧
+    (h.newParsed d c).abs = h.abs.newObj (.ok
+      { key := if c.isPrivate then (d.drop 46).take 32 else (d.drop 45).take 33,
+        chainCode := (d.drop 13).take 32, parentFP := (d.drop 5).take 4, version := (d.drop 0).take 4,
+        childNum := c.childNum, depth := c.depth, isPrivate := c.isPrivate }) := by
+  let nk : HKey := { key := if c.isPrivate then ⟨h.mem.size, 46, 32⟩ else ⟨h.mem.size, 45, 33⟩,
+                     pubKey := Slice.nil, chainCode := ⟨h.mem.size, 13, 32⟩, parentFP := ⟨h.mem.size, 5, 4⟩,
+                     version := ⟨h.mem.size, 0, 4⟩,
+                     childNum := c.childNum, depth := c.depth, isPrivate := c.isPrivate }
+  let h2 : Heap := { h with mem := h.mem.push d }
+  have e : Ext h h2 := ext_push h d _ _
+  have ea : h2.arrAt h.mem.size = d := arrAt_push_new h.mem d _ _
+  have hsz : h2.mem.size = h.mem.size + 1 := by show (h.mem.push d).size = _; rw [Array.size_push]
+  have ib : ∀ o n, o + n ≤ 82 → h2.inBounds ⟨h.mem.size, o, n⟩ := by
+    intro o n hon
+    exact Or.inr ⟨by show h.mem.size < h2.mem.size; omega,
+      by show o + n ≤ (h2.arrAt h.mem.size).length; rw [ea, hd]; exact hon⟩
+  have hkey : nk.key = ⟨h.mem.size, 46, 32⟩ ∨ nk.key = ⟨h.mem.size, 45, 33⟩ := by
+    have : ∀ (b : Bool) (A B : Slice), (if b then A else B) = A ∨ (if b then A else B) = B := by
+      intro b A B; cases b
+      · exact Or.inr rfl
+      · exact Or.inl rfl
+    exact this c.isPrivate _ _
+  have hw : ∀ s ∈ nk.writable, s.len = 0 ∨
+      (s.arr = h.mem.size ∧ 5 ≤ s.off ∧ s.off + s.len ≤ 82) := by
+    intro s hs
+    simp only [HKey.writable, List.mem_cons, List.not_mem_nil, or_false] at hs
+    rcases hs with rfl | rfl | rfl | rfl
+    · rcases hkey with hk | hk <;> rw [hk]
+      · exact Or.inr ⟨rfl, by show 5 ≤ 46; omega, by show 46 + 32 ≤ 82; omega⟩
+      · exact Or.inr ⟨rfl, by show 5 ≤ 45; omega, by show 45 + 33 ≤ 82; omega⟩
+    · exact Or.inl rfl
+    · exact Or.inr ⟨rfl, by show 5 ≤ 13; omega, by show 13 + 32 ≤ 82; omega⟩
+    · exact Or.inr ⟨rfl, by show 5 ≤ 5; omega, by show 5 + 4 ≤ 82; omega⟩
+  have hinv : Inv nets (h2.pushKey nk) := by
+    apply Inv.pushKey hI e rfl rfl nk
+    · intro s hs
+      rcases hw s hs with h0 | ⟨h1, _, h3⟩
+      · exact Or.inl h0
+      · refine Or.inr ⟨by omega, ?_⟩
+        have := ib s.off s.len h3
+        rw [← h1] at this
+        exact this
+    · exact ib 0 4 (by decide)
+    · intro s hs
+      rcases hw s hs with h0 | ⟨_, h2', _⟩
+      · exact Or.inr (Or.inl h0)
+      · exact Or.inr (Or.inr (Or.inr (Or.inl (by show 0 + 4 ≤ s.off; omega))))
+    · intro id2 k2 hk2 s hs
+      by_cases s0 : s.len = 0
+      · exact Or.inr (Or.inl s0)
+      · have := inBounds_arr_lt (hI.bounds id2 k2 hk2 s (List.mem_cons_of_mem _ hs)) s0
+        exact Or.inr (Or.inr (Or.inl (by show h.mem.size ≠ s.arr; omega)))
+    · rfl
+  refine ⟨hinv, ?_⟩
+  show (h2.pushKey nk).abs = _
+  rw [abs_pushKey hI e rfl rfl nk]
+  congr 2
+  unfold Heap.absKey
+  have rk : h2.read nk.key = if c.isPrivate then (d.drop 46).take 32 else (d.drop 45).take 33 := by
+    show h2.read (if c.isPrivate then (⟨h.mem.size, 46, 32⟩ : Slice) else ⟨h.mem.size, 45, 33⟩) = _
+    cases c.isPrivate
+    · simp only [Bool.false_eq_true, if_false, read_mk, ea]
+    · simp only [if_true, read_mk, ea]
+  rw [rk]
+  simp only [nk, read_mk, ea]
+
+/-- the record that `newParsed_spec` yields is the key `NewKeyFromString` returns -/
+theorem parsed_fields (pr : Prims) (s : Bytes) (c : XKey) (h : Bip32.fromString pr s = .ok c) :
+    (Base58.decode s).length = 82 ∧
+    c = { key := if c.isPrivate then ((Base58.decode s).drop 46).take 32 else ((Base58.decode s).drop 45).take 33,
+          chainCode := ((Base58.decode s).drop 13).take 32, parentFP := ((Base58.decode s).drop 5).take 4,
+          version := ((Base58.decode s).drop 0).take 4,
+          childNum := c.childNum, depth := c.depth, isPrivate := c.isPrivate } := by
+  obtain ⟨hl, _, hc⟩ := (Bip32.fromString_iff pr s c).1 h
+  refine ⟨hl, ?_⟩
+  generalize Base58.decode s = d at *
+  have k1 : Bip32.keyField d = (d.drop 45).take 33 := by
+    unfold Bip32.keyField; exact take_drop_take d 78 45 33 (by decide)
+  have k2 : (Bip32.keyField d).drop 1 = (d.drop 46).take 32 := by
+    rw [k1, drop_take_drop d 45 33 1 (by decide)]
+  have f1 : ((d.take 78).drop 13).take 32 = (d.drop 13).take 32 := take_drop_take d 78 13 32 (by decide)
+  have f2 : ((d.take 78).drop 5).take 4 = (d.drop 5).take 4 := take_drop_take d 78 5 4 (by decide)
+  have f3 : (d.take 78).take 4 = (d.drop 0).take 4 := by
+    have := take_drop_take d 78 0 4 (by decide)
+    simpa using this
+  rcases hc with ⟨_, _, _, rfl⟩ | ⟨_, _, rfl⟩
+  · simp only [if_true, k2, f1, f2, f3]
+  · simp only [Bool.false_eq_true, if_false, k1, f1, f2, f3]
+
+theorem push2_arrAt (m : Array Bytes) (a b : Bytes) (objs : Array HKey) (regs : Array (Option Nat)) :
+    (Heap.mk ((m.push a).push b) objs regs).arrAt m.size = a ∧
+    (Heap.mk ((m.push a).push b) objs regs).arrAt (m.size + 1) = b := by
+  unfold Heap.arrAt
+  simp only [Array.getD_eq_getD_getElem?]
+  refine ⟨?_, ?_⟩
+  · rw [Array.getElem?_push, if_neg (by simp only [Array.size_push]; omega), Array.getElem?_push_size]; rfl
+  · rw [Array.getElem?_push, if_pos (by simp only [Array.size_push])]; rfl
+
+/-- `NewMaster`: key and chain code are the two halves of one fresh array -/
+theorem newMaster_spec {nets : List Net} {h : Heap} (hI : Inv nets h) (n : Nat) (net : Net) (m : XKey)
+    (hn : nets[n]? = some net) :
+    Inv nets (h.newMaster nets n m) ∧
+    (h.newMaster nets n m).abs = h.abs.newObj (.ok { m with version := net.hdPriv }) := by
+  let nk : HKey := { key := ⟨h.mem.size, 0, m.key.length⟩, pubKey := Slice.nil,
+                     chainCode := ⟨h.mem.size, m.key.length, m.chainCode.length⟩,
+                     parentFP := ⟨h.mem.size + 1, 0, m.parentFP.length⟩, version := privSlice nets n,
+                     childNum := m.childNum, depth := m.depth, isPrivate := m.isPrivate }
+  let h2 : Heap := { h with mem := (h.mem.push (m.key ++ m.chainCode)).push m.parentFP }
+  have e : Ext h h2 := by
+    intro i hi
+    show ((h.mem.push (m.key ++ m.chainCode)).push m.parentFP)[i]? = _
+    rw [Array.getElem?_push, if_neg (by simp only [Array.size_push]; omega), Array.getElem?_push,
+      if_neg (by omega)]
+  have ea : h2.arrAt h.mem.size = m.key ++ m.chainCode :=
+    (push2_arrAt h.mem (m.key ++ m.chainCode) m.parentFP h.objs h.regs).1
+  have eb : h2.arrAt (h.mem.size + 1) = m.parentFP :=
+    (push2_arrAt h.mem (m.key ++ m.chainCode) m.parentFP h.objs h.regs).2
+  have hsz : h2.mem.size = h.mem.size + 2 := by
+    show ((h.mem.push (m.key ++ m.chainCode)).push m.parentFP).size = _
+    simp only [Array.size_push]
+  obtain ⟨g1, r1, _, _⟩ := netSlice_facts hI n net hn
+  have gv : GoodVersion nets h (privSlice nets n) := Or.inr (Or.inr g1)
+  obtain ⟨vb, vlt, vd⟩ := gv.facts hI
+  have hw : ∀ s ∈ nk.writable, s.len = 0 ∨ (h.mem.size ≤ s.arr ∧ h2.inBounds s) := by
+    intro s hs
+    simp only [HKey.writable, List.mem_cons, List.not_mem_nil, or_false] at hs
+    rcases hs with rfl | rfl | rfl | rfl
+    · exact Or.inr ⟨Nat.le_refl _, Or.inr ⟨by show h.mem.size < h2.mem.size; omega,
+        by show 0 + m.key.length ≤ (h2.arrAt h.mem.size).length; rw [ea, List.length_append]; omega⟩⟩
+    · exact Or.inl rfl
+    · exact Or.inr ⟨Nat.le_refl _, Or.inr ⟨by show h.mem.size < h2.mem.size; omega,
+        Nat.le_of_eq (by show m.key.length + m.chainCode.length = (h2.arrAt h.mem.size).length; rw [ea, List.length_append])⟩⟩
+    · exact Or.inr ⟨by show h.mem.size ≤ h.mem.size + 1; omega, Or.inr ⟨by show h.mem.size + 1 < h2.mem.size; omega,
+        by show 0 + m.parentFP.length ≤ (h2.arrAt (h.mem.size + 1)).length; rw [eb]; omega⟩⟩
+  have hinv : Inv nets (h2.pushKey nk) := by
+    apply Inv.pushKey hI e rfl rfl nk hw (e.inBounds _ vb)
+    · intro s hs
+      rcases vlt with v0 | vl
+      · exact Or.inl v0
+      · rcases hw s hs with h0 | ⟨hge, _⟩
+        · exact Or.inr (Or.inl h0)
+        · exact Or.inr (Or.inr (Or.inl (by show (privSlice nets n).arr ≠ s.arr; omega)))
+    · exact vd
+    · rfl
+  refine ⟨hinv, ?_⟩
+  show (h2.pushKey nk).abs = _
+  rw [abs_pushKey hI e rfl rfl nk]
+  congr 2
+  unfold Heap.absKey
+  simp only [nk, read_mk, ea, eb]
+  have q1 : ((m.key ++ m.chainCode).drop 0).take m.key.length = m.key := by simp
+  have q2 : ((m.key ++ m.chainCode).drop m.key.length).take m.chainCode.length = m.chainCode := by simp
+  have q3 : (m.parentFP.drop 0).take m.parentFP.length = m.parentFP := by simp
+  rw [q1, q2, q3, e.read _ vb, r1]
+
+
+/-! ### refinement: one step -/
+
+/-- `pubKeyBytes()` possibly called -/
+theorem cacheIf_spec {nets : List Net} {h : Heap} (hI : Inv nets h) (id : Nat) (b : Bool) :
+    let h1 := if b then h.cachePub id else h
+    Inv nets h1 ∧ Ext h h1 ∧ h1.abs = h.abs ∧ h1.regs = h.regs ∧
+    (∀ (i : Nat) x, h.objs[i]? = some x → ∃ x', h1.objs[i]? = some x' ∧ x'.version = x.version) := by
+  cases b
+  · exact ⟨hI, Ext.refl h, rfl, rfl, fun i x hx => ⟨x, hx, rfl⟩⟩
+  · obtain ⟨a, b, c, d, _, f⟩ := cachePub_spec hI id
+    exact ⟨a, b, c, d, f⟩
+
+theorem newObj_error (st : State) (e : Err) : st.newObj (.error e) = st.fail := rfl
+
+/-- the common tail of `Child` and of a non-empty path: allocate the result `res` (computed from the
+receiver's value, version inherited) after a possible cache fill -/
+theorem derive_spec {nets : List Net} {h : Heap} (hI : Inv nets h) (id : Nat) (k : HKey)
+    (hk : h.objs[id]? = some k) (b : Bool) :
+    let h1 := if b then h.cachePub id else h
+    (∀ e : Err, Inv nets h1.fail ∧ h1.fail.abs = h.abs.newObj (.error e)) ∧
+    (∀ c : XKey, c.version = (h.absKey k).version →
+      Inv nets (h1.newChild k.version c) ∧ (h1.newChild k.version c).abs = h.abs.newObj (.ok c)) := by
+  intro h1
+  obtain ⟨i1, e1, a1, r1, v1⟩ := cacheIf_spec hI id b
+  constructor
+  · intro e
+    rw [abs_fail]
+    show Inv nets h1.fail ∧ h1.abs.fail = _
+    rw [a1]
+    exact ⟨i1.fail, rfl⟩
+  · intro c hver
+    obtain ⟨x', hx', hv'⟩ := v1 id k hk
+    have gv : GoodVersion nets h1 k.version := Or.inl ⟨id, x', hx', hv'⟩
+    obtain ⟨i2, a2⟩ := newChild_spec i1 k.version c gv
+    refine ⟨i2, ?_⟩
+    rw [a2]
+    show h1.abs.newObj _ = _
+    rw [a1]
+    have : h1.read k.version = c.version := by
+      rw [e1.read _ (hI.bounds id k hk _ (by simp)), hver]; rfl
+    rw [this]
+
+theorem derivePathAux_version (pr : Prims) (cs : List Bytes) (k c : XKey)
+    (h : Bip32.derivePathAux pr k cs = .ok c) : c.version = k.version := by
+  induction cs generalizing k with
+  | nil => simp only [Bip32.derivePathAux] at h; injection h with h; rw [h]
+  | cons x xs ih =>
+    simp only [Bip32.derivePathAux] at h
+    split at h
+    · cases h
+    · split at h
+      · cases h
+      · rename_i k' hk'
+        rw [ih k' h, Bip32.child_version pr k k' _ hk']
+
+theorem deriveChildFromPath_version (pr : Prims) (p : Bytes) (k c : XKey)
+    (h : Bip32.deriveChildFromPath pr k p = .ok c) : c.version = k.version := by
+  unfold Bip32.deriveChildFromPath at h
+  split at h
+  · injection h with h; rw [h]
+  · exact derivePathAux_version pr _ k c h
+
+/-- the registry lookup of the value level and the array the heap level points at agree -/
+theorem lookup_slice {nets : List Net} {h : Heap} (hI : Inv nets h) (v w : Bytes)
+    (hl : Registry.lookup (nets.map fun n => (n.hdPriv, n.hdPub)) v = some w) :
+    GoodVersion nets h (lookupPubSlice nets v) ∧ h.read (lookupPubSlice nets v) = w := by
+  unfold Registry.lookup at hl
+  split at hl
+  · cases hl
+  · have key : ∀ (ns : List Net), ((ns.map fun n => (n.hdPriv, n.hdPub)).find? (·.1 == v)).map (·.2) = some w →
+        ∃ n net, ns.findIdx? (fun n => n.hdPriv == v) = some n ∧ ns[n]? = some net ∧ net.hdPub = w := by
+      intro ns
+      induction ns with
+      | nil => intro hh; cases hh
+      | cons x xs ih =>
+        intro hh
+        rw [List.map_cons, List.find?_cons] at hh
+        rw [List.findIdx?_cons]
+        by_cases hx : (x.hdPriv == v) = true
+        · simp only [hx, Option.map_some, Option.some.injEq] at hh
+          rw [if_pos hx]
+          exact ⟨0, x, rfl, rfl, hh⟩
+        · have hx' : (x.hdPriv == v) = false := by simpa using hx
+          simp only [hx'] at hh
+          obtain ⟨n, net, f1, f2, f3⟩ := ih hh
+          rw [if_neg hx, f1]
+          exact ⟨n + 1, net, rfl, by simpa using f2, f3⟩
+    obtain ⟨n, net, f1, f2, f3⟩ := key nets hl
+    unfold lookupPubSlice
+    rw [f1]
+    obtain ⟨_, _, g2, r2⟩ := netSlice_facts hI n net f2
+    exact ⟨Or.inr (Or.inr g2), r2.trans f3⟩
+
+theorem hstep_child {nets : List Net} {h : Heap} (pr : Prims) (hI : Inv nets h) (r i : Nat) :
+    (hstep pr nets h (.child r i)).map Heap.abs = step pr nets h.abs (.child r i) ∧
+    ∀ h', hstep pr nets h (.child r i) = some h' → Inv nets h' := by
+  simp only [hstep, step]
+  have hrs : h.abs.regs.size = h.regs.size := rfl
+  rw [hrs]
+  by_cases hr : r ≥ h.regs.size
+  · rw [if_pos hr, if_pos hr]; exact ⟨rfl, fun _ hh => by cases hh⟩
+  · rw [if_neg hr, if_neg hr, abs_get]
+    cases hg : h.get r with
+    | none => exact ⟨rfl, fun h' hh => by injection hh with hh; rw [← hh]; exact hI.fail⟩
+    | some p =>
+      obtain ⟨id, k⟩ := p
+      simp only [Option.map_some]
+      obtain ⟨_, hk⟩ := hget_some hg
+      obtain ⟨d1, d2⟩ := derive_spec hI id k hk (cacheCond pr (h.absKey k) i)
+      cases hres : Bip32.child pr (h.absKey k) i with
+      | error e =>
+        obtain ⟨x1, x2⟩ := d1 e
+        exact ⟨by simp only [Option.map_some]; rw [x2],
+          fun h' hh => by injection hh with hh; rw [← hh]; exact x1⟩
+      | ok c =>
+        obtain ⟨x1, x2⟩ := d2 c (Bip32.child_version pr _ c i hres)
+        exact ⟨by simp only [Option.map_some]; rw [x2],
+          fun h' hh => by injection hh with hh; rw [← hh]; exact x1⟩
+
+
+theorem hstep_path {nets : List Net} {h : Heap} (pr : Prims) (hI : Inv nets h) (r : Nat) (p : Bytes) :
+    (hstep pr nets h (.path r p)).map Heap.abs = step pr nets h.abs (.path r p) ∧
+    ∀ h', hstep pr nets h (.path r p) = some h' → Inv nets h' := by
+  simp only [hstep, step]
+  have hrs : h.abs.regs.size = h.regs.size := rfl
+  rw [hrs]
+  by_cases hr : r ≥ h.regs.size
+  · rw [if_pos hr, if_pos hr]; exact ⟨rfl, fun _ hh => by cases hh⟩
+  · rw [if_neg hr, if_neg hr, abs_get]
+    cases hg : h.get r with
+    | none => exact ⟨rfl, fun h' hh => by injection hh with hh; rw [← hh]; exact hI.fail⟩
+    | some q =>
+      obtain ⟨id, k⟩ := q
+      simp only [Option.map_some]
+      obtain ⟨hreg, hk⟩ := hget_some hg
+      have hidlt : id < h.objs.size := hI.regs r id hreg
+      by_cases hp : p.isEmpty = true
+      · rw [if_pos hp, if_pos hp]
+        exact ⟨rfl, fun h' hh => by injection hh with hh; rw [← hh]; exact hI.alias id hidlt⟩
+      · rw [if_neg hp, if_neg hp]
+        have main : ∀ b : Bool,
+            (Option.map Heap.abs
+              (match Bip32.deriveChildFromPath pr (h.absKey k) p with
+                | .error _ => some (if b then h.cachePub id else h).fail
+                | .ok c => some ((if b then h.cachePub id else h).newChild k.version c)) =
+              some (h.abs.newObj (Bip32.deriveChildFromPath pr (h.absKey k) p))) ∧
+            ∀ h', (match Bip32.deriveChildFromPath pr (h.absKey k) p with
+                | .error _ => some (if b then h.cachePub id else h).fail
+                | .ok c => some ((if b then h.cachePub id else h).newChild k.version c)) = some h' →
+              Inv nets h' := by
+          intro b
+          obtain ⟨d1, d2⟩ := derive_spec hI id k hk b
+          cases hres : Bip32.deriveChildFromPath pr (h.absKey k) p with
+          | error e =>
+            obtain ⟨x1, x2⟩ := d1 e
+            exact ⟨by simp only [Option.map_some]; rw [x2],
+              fun h' hh => by injection hh with hh; rw [← hh]; exact x1⟩
+          | ok c =>
+            obtain ⟨x1, x2⟩ := d2 c (deriveChildFromPath_version pr p _ c hres)
+            exact ⟨by simp only [Option.map_some]; rw [x2],
+              fun h' hh => by injection hh with hh; rw [← hh]; exact x1⟩
+        cases hq : (Bip32.splitOn 47 p).head? >>= Bip32.childIndex with
+        | none => exact main false
+        | some i => exact main (cacheCond pr (h.absKey k) i)
+
+theorem hstep_neuter {nets : List Net} {h : Heap} (pr : Prims) (hI : Inv nets h) (r : Nat) :
+    (hstep pr nets h (.neuter r)).map Heap.abs = step pr nets h.abs (.neuter r) ∧
+    ∀ h', hstep pr nets h (.neuter r) = some h' → Inv nets h' := by
+  simp only [hstep, step]
+  have hrs : h.abs.regs.size = h.regs.size := rfl
+  rw [hrs]
+  by_cases hr : r ≥ h.regs.size
+  · rw [if_pos hr, if_pos hr]; exact ⟨rfl, fun _ hh => by cases hh⟩
+  · rw [if_neg hr, if_neg hr, abs_get]
+    cases hg : h.get r with
+    | none => exact ⟨rfl, fun h' hh => by injection hh with hh; rw [← hh]; exact hI.fail⟩
+    | some q =>
+      obtain ⟨id, k⟩ := q
+      simp only [Option.map_some]
+      obtain ⟨hreg, hk⟩ := hget_some hg
+      have hidlt : id < h.objs.size := hI.regs r id hreg
+      have hpe : (h.absKey k).isPrivate = k.isPrivate := rfl
+      rw [hpe]
+      cases hp : k.isPrivate
+      · simp only [Bool.not_false, if_true]
+        exact ⟨rfl, fun h' hh => by injection hh with hh; rw [← hh]; exact hI.alias id hidlt⟩
+      · simp only [Bool.not_true, Bool.false_eq_true, if_false]
+        cases hres : Bip32.neuter (nets.map fun n => (n.hdPriv, n.hdPub)) (h.absKey k) with
+        | error e =>
+          exact ⟨rfl, fun h' hh => by injection hh with hh; rw [← hh]; exact hI.fail⟩
+        | ok c =>
+          simp only [Option.map_some]
+          obtain ⟨i1, e1, a1, _, _, _⟩ := cachePub_spec hI id
+          have hl := (Bip32.neuter_priv _ (h.absKey k) c (hpe.trans hp) hres).1
+          obtain ⟨gv, rv⟩ := lookup_slice i1 _ _ hl
+          obtain ⟨i2, a2⟩ := newNeutered_spec i1 (lookupPubSlice nets (h.absKey k).version) c gv
+          refine ⟨?_, fun h' hh => by injection hh with hh; rw [← hh]; exact i2⟩
+          rw [a2, a1, rv]
+
+theorem hstep_reparse {nets : List Net} {h : Heap} (pr : Prims) (hI : Inv nets h) (r : Nat) :
+    (hstep pr nets h (.reparse r)).map Heap.abs = step pr nets h.abs (.reparse r) ∧
+    ∀ h', hstep pr nets h (.reparse r) = some h' → Inv nets h' := by
+  simp only [hstep, step]
+  have hrs : h.abs.regs.size = h.regs.size := rfl
+  rw [hrs]
+  by_cases hr : r ≥ h.regs.size
+  · rw [if_pos hr, if_pos hr]; exact ⟨rfl, fun _ hh => by cases hh⟩
+  · rw [if_neg hr, if_neg hr, abs_get]
+    cases hg : h.get r with
+    | none => exact ⟨rfl, fun h' hh => by injection hh with hh; rw [← hh]; exact hI.fail⟩
+    | some q =>
+      obtain ⟨id, k⟩ := q
+      simp only [Option.map_some]
+      cases hres : Bip32.fromString pr (Bip32.toString pr (h.absKey k)) with
+      | error e =>
+        exact ⟨rfl, fun h' hh => by injection hh with hh; rw [← hh]; exact hI.fail⟩
+      | ok c =>
+        simp only [Option.map_some]
+        obtain ⟨hl, hc⟩ := parsed_fields pr _ c hres
+        obtain ⟨i2, a2⟩ := newParsed_spec hI (Base58.decode (Bip32.toString pr (h.absKey k))) c hl
+        refine ⟨?_, fun h' hh => by injection hh with hh; rw [← hh]; exact i2⟩
+        rw [a2, ← hc]
+
+theorem hstep_setNet {nets : List Net} {h : Heap} (pr : Prims) (hI : Inv nets h) (r n : Nat) :
+    (hstep pr nets h (.setNet r n)).map Heap.abs = step pr nets h.abs (.setNet r n) ∧
+    ∀ h', hstep pr nets h (.setNet r n) = some h' → Inv nets h' := by
+  simp only [hstep, step]
+  have hrs : h.abs.regs.size = h.regs.size := rfl
+  rw [hrs]
+  by_cases hr : r ≥ h.regs.size
+  · rw [if_pos hr, if_pos hr]; exact ⟨rfl, fun _ hh => by cases hh⟩
+  · rw [if_neg hr, if_neg hr]
+    cases hn : nets[n]? with
+    | none => exact ⟨rfl, fun _ hh => by cases hh⟩
+    | some net =>
+      simp only []
+      rw [abs_get]
+      cases hg : h.get r with
+      | none => exact ⟨rfl, fun h' hh => by injection hh with hh; rw [← hh]; exact hI⟩
+      | some q =>
+        obtain ⟨id, k⟩ := q
+        simp only [Option.map_some]
+        obtain ⟨_, hk⟩ := hget_some hg
+        obtain ⟨i2, a2⟩ := setNet_spec hI id n k net hk hn
+        exact ⟨by rw [a2], fun h' hh => by injection hh with hh; rw [← hh]; exact i2⟩
+
+theorem hstep_zero {nets : List Net} {h : Heap} (pr : Prims) (hI : Inv nets h) (r : Nat) :
+    (hstep pr nets h (.zero r)).map Heap.abs = step pr nets h.abs (.zero r) ∧
+    ∀ h', hstep pr nets h (.zero r) = some h' → Inv nets h' := by
+  simp only [hstep, step]
+  have hrs : h.abs.regs.size = h.regs.size := rfl
+  rw [hrs]
+  by_cases hr : r ≥ h.regs.size
+  · rw [if_pos hr, if_pos hr]; exact ⟨rfl, fun _ hh => by cases hh⟩
+  · rw [if_neg hr, if_neg hr, abs_get]
+    cases hg : h.get r with
+    | none => exact ⟨rfl, fun h' hh => by injection hh with hh; rw [← hh]; exact hI⟩
+    | some q =>
+      obtain ⟨id, k⟩ := q
+      simp only [Option.map_some]
+      obtain ⟨_, hk⟩ := hget_some hg
+      obtain ⟨i2, a2⟩ := zeroHeap_spec hI id k hk
+      have hz : zeroHeap h id k = _ := rfl
+      exact ⟨by show some (zeroHeap h id k).abs = _; rw [a2],
+        fun h' hh => by injection hh with hh; rw [← hh]; exact i2⟩
+
+/-- **refinement + invariance, one step**: under `Inv`, a heap step is the value-level step on the
+abstraction, and `Inv` is preserved -/
+theorem hstep_refines {nets : List Net} {h : Heap} (pr : Prims) (hI : Inv nets h) (op : Op) :
+    (hstep pr nets h op).map Heap.abs = step pr nets h.abs op ∧
+    ∀ h', hstep pr nets h op = some h' → Inv nets h' := by
+  cases op with
+  | child r i => exact hstep_child pr hI r i
+  | neuter r => exact hstep_neuter pr hI r
+  | path r p => exact hstep_path pr hI r p
+  | reparse r => exact hstep_reparse pr hI r
+  | setNet r n => exact hstep_setNet pr hI r n
+  | zero r => exact hstep_zero pr hI r
+
+theorem hrun_refines {nets : List Net} (pr : Prims) (ops : List Op) (h : Heap) (hI : Inv nets h) :
+    (hrun pr nets h ops).map Heap.abs = run pr nets h.abs ops ∧
+    ∀ h', hrun pr nets h ops = some h' → Inv nets h' := by
+  induction ops generalizing h with
+  | nil => exact ⟨rfl, fun h' hh => by injection hh with hh; rw [← hh]; exact hI⟩
+  | cons op ops ih =>
+    obtain ⟨s1, s2⟩ := hstep_refines pr hI op
+    simp only [hrun, run]
+    cases hs : hstep pr nets h op with
+    | none =>
+      rw [hs] at s1
+      rw [← s1]; exact ⟨rfl, fun _ hh => by cases hh⟩
+    | some h1 =>
+      rw [hs] at s1
+      rw [← s1]
+      exact ih h1 (s2 h1 hs)
+
+/-! ### initial heaps -/
+
+theorem abs_hempty (nets : List Net) : (hempty nets).abs = {} := by
+  unfold Heap.abs hempty; simp
+
+theorem hinitSeed_spec (pr : Prims) (nets : List Net) (seed : Bytes) (n : Nat) (net : Net)
+    (hn : nets[n]? = some net) :
+    ∃ h0, hinitSeed pr nets seed n = some h0 ∧ Inv nets h0 ∧
+      h0.abs = State.newObj {} (Bip32.newMaster pr seed net.hdPriv) := by
+  unfold hinitSeed
+  rw [hn]
+  simp only []
+  cases hm : Bip32.newMaster pr seed net.hdPriv with
+  | error e => exact ⟨_, rfl, (inv_hempty nets).fail, by rw [abs_fail, abs_hempty]; rfl⟩
+  | ok m =>
+    obtain ⟨i2, a2⟩ := newMaster_spec (inv_hempty nets) n net m hn
+    refine ⟨_, rfl, i2, ?_⟩
+    rw [a2, abs_hempty]
+    have : m.version = net.hdPriv := by
+      unfold Bip32.newMaster at hm
+      split at hm
+      · cases hm
+      · simp only [] at hm
+        split at hm
+        · cases hm
+        · injection hm with hm; rw [← hm]
+    rw [← this]
+
+theorem hinitStr_spec (pr : Prims) (nets : List Net) (s : Bytes) :
+    Inv nets (hinitStr pr nets s) ∧ (hinitStr pr nets s).abs = State.newObj {} (Bip32.fromString pr s) := by
+  unfold hinitStr
+  cases hm : Bip32.fromString pr s with
+  | error e => exact ⟨(inv_hempty nets).fail, by show (hempty nets).fail.abs = _; rw [abs_fail, abs_hempty]; rfl⟩
+  | ok c =>
+    obtain ⟨hl, hc⟩ := parsed_fields pr s c hm
+    obtain ⟨i2, a2⟩ := newParsed_spec (inv_hempty nets) (Base58.decode s) c hl
+    refine ⟨i2, ?_⟩
+    simp only []
+    rw [a2, abs_hempty, ← hc]
+
+
+end GoBk.XKeyHeap
+
 #print axioms GoBk.Bip32.fromString_toString
 #print axioms GoBk.Bip32.neuter_child_comm
 #print axioms GoBk.Bip32.child_priv_eq
 #print axioms GoBk.Bip32.child_pub_eq
 #print axioms GoBk.Bip32.valid_coords_ne_zero
+#print axioms GoBk.XKeyHeap.hstep_refines
+#print axioms GoBk.XKeyHeap.hrun_refines
